@@ -19,28 +19,124 @@ open MLPE
 
 variable {val : Node → Option Val}
 
-/-- programs with switches only -/
-structure SwP (P : Program) : Prop where
-  noHead   : ∀ n, P.g.isOneofHead n = false
-  noRecD   : ∀ n, (P.g.attr n).startNode = none
+/-- the candidates of one-of head `h`, in declared order -/
+def cands (P : Program) (h : Node) : List Node := (P.g.attr h).oneofNodes
+
+/-- the program has a one-of -/
+def HasHeads (P : Program) : Prop := ∃ h, P.g.isOneofHead h = true
+
+/-- programs with switches and one-ofs (any nesting), no recurrent subgraph -/
+structure OneP (P : Program) : Prop where
   noRecur  : ∀ n kw i k v, P.body n kw i k = .ret v → v.isRecur = false ∧ v.isExc = false
   noRecurD : ∀ n kw, (P.dflt n kw).isRecur = false ∧ (P.dflt n kw).isExc = false
   /-- decision nodes are ordinary nodes (the builder refers to them by their class) -/
   decPlain : ∀ e ∈ P.g.edges, e.isSwitch = true → P.g.isSwitch e.u = false
   /-- the edges into a synthetic switch node are its decision edge and its case edges -/
   swEdges  : ∀ e ∈ P.g.edges, P.g.isSwitch e.v = true → e.isSwitch = true ∨ e.case.isSome = true
-  outIn    : P.g.output ∈ P.g.nodes
-  noChild  : ∀ n ∈ P.g.nodes, (P.g.attr n).isOneofChild = false
+  /-- a switch has one decision edge -/
+  decUnique : ∀ S, ((P.g.edges.filter (fun e => e.v == S)).filter (·.isSwitch)).length ≤ 1
+  inOut    : P.g.input ≠ P.g.output
+  inIn     : P.g.input ∈ P.g.nodes ∧ (P.g.attr P.g.input).isOneofChild = false
+  outIn    : P.g.output ∈ P.g.nodes ∧ (P.g.attr P.g.output).isOneofChild = false
+  headPlain : ∀ h, P.g.isOneofHead h = true → P.g.isSwitch h = false
+  /-- the edges into a synthetic one-of head come from its candidates and from the input node -/
+  headEdges : ∀ e ∈ P.g.edges, P.g.isOneofHead e.v = true → (cands P e.v).contains e.u = true ∨ e.u = P.g.input
+  /-- the input node is the root -/
+  inRoot   : ∀ e ∈ P.g.edges, e.v ≠ P.g.input
+  /-- an edge into an ordinary node that carries no parameter comes from the input node -/
+  kwEdges  : ∀ e ∈ P.g.edges, P.g.isSwitch e.v = false ∧ P.g.isOneofHead e.v = false → e.kwarg = none → e.u = P.g.input
+  /-- an opened candidate is a node of the graph that the input node reaches in the filtered view -/
+  candReach : ∀ (h c : Node) (s : St), P.g.isOneofHead h = true → c ∈ cands P h → s.opened c = true →
+    c ∈ P.g.nodes ∧ c ≠ P.g.input ∧ c ∈ P.g.reachSet (filteredView P s) P.g.input
 
-/-! ### the dataflow reading with switches -/
+/-- programs with switches only -/
+structure SwP (P : Program) : Prop extends OneP P where
+  noHead   : ∀ n, P.g.isOneofHead n = false
+
+/-- the structural part of `OneP` from its Boolean form (`onePB`, which the driver evaluates on generated programs) -/
+theorem oneP_of_check {P : Program} (hc : onePB P = true)
+    (headsIn : ∀ h, P.g.isOneofHead h = true → h ∈ P.g.nodes)
+    (hr : ∀ n kw i k v, P.body n kw i k = .ret v → v.isRecur = false ∧ v.isExc = false)
+    (hrd : ∀ n kw, (P.dflt n kw).isRecur = false ∧ (P.dflt n kw).isExc = false) : OneP P := by
+  unfold onePB at hc
+  simp only [Bool.and_eq_true, List.all_eq_true, Bool.or_eq_true, Bool.not_eq_true', decide_eq_true_eq, bne_iff_ne, ne_eq,
+    List.contains_iff_mem, beq_iff_eq] at hc
+  obtain ⟨⟨⟨⟨⟨⟨⟨⟨⟨⟨⟨h1, h2⟩, h3⟩, h4⟩, h5⟩, h6⟩, h7⟩, h8⟩, h9⟩, h10⟩, h11⟩, _⟩ := hc
+  refine { noRecur := hr, noRecurD := hrd, decPlain := ?_, swEdges := ?_, decUnique := ?_, inOut := h4, inIn := h5, outIn := h6,
+           headPlain := ?_, headEdges := ?_, inRoot := h9, kwEdges := ?_, candReach := ?_ }
+  · intro e he hs
+    rcases h1 e he with h | h
+    · rw [hs] at h; cases h
+    · exact h
+  · intro e he hs
+    rcases h2 e he with (h | h) | h
+    · rw [hs] at h; cases h
+    · exact Or.inl h
+    · exact Or.inr h
+  · intro S
+    cases hL : P.g.edges.filter (fun e => e.v == S) with
+    | nil => simp
+    | cons e0 rest =>
+      have hm : e0 ∈ P.g.edges.filter (fun e => e.v == S) := by rw [hL]; simp
+      simp only [List.mem_filter, beq_iff_eq] at hm
+      have := h3 e0 hm.1
+      rw [hm.2, hL] at this
+      exact this
+  · intro h hh
+    rcases h7 h (headsIn h hh) with h' | h'
+    · rw [hh] at h'; cases h'
+    · exact h'
+  · intro e he hh
+    rcases h8 e he with (h | h) | h
+    · rw [hh] at h; cases h
+    · exact Or.inl (by simpa [cands, List.contains_iff_mem] using h)
+    · exact Or.inr h
+  · intro e he hns hk
+    rcases h10 e he with ((h | h) | h) | h
+    · rw [hns.1] at h; cases h
+    · rw [hns.2] at h; cases h
+    · rw [hk] at h; cases h
+    · exact h
+  · intro h c s hh hc' hop
+    rcases h11 h (headsIn h hh) with h' | h'
+    · rw [hh] at h'; cases h'
+    · obtain ⟨⟨a1, a2⟩, a3⟩ := h' c hc'
+      refine ⟨a1, a2, ?_⟩
+      refine Graph.reachSet_mono (w := candView P c) ?_ a3
+      refine ⟨?_, rfl⟩
+      intro u hu
+      simp only [candView, filteredView, Bool.or_eq_true, Bool.not_eq_true', beq_iff_eq] at hu ⊢
+      rcases hu with hu | hu
+      · exact Or.inl hu
+      · exact Or.inr (by rw [hu]; exact hop)
+
+theorem SwP.noHeads {P : Program} (h : SwP P) : ¬ HasHeads P := by
+  intro ⟨x, hx⟩; rw [h.noHead x] at hx; cases hx
+
+/-! ### the dataflow reading with switches and one-ofs -/
 
 /-- `val` solves the dataflow equations: an ordinary node has the value the retry / default policy yields on the values
-of its sources (a switch source contributes the value of its selected case); a switch node has the value of the case
-whose label its decision node returned -/
+of its sources (a switch source contributes the value of its selected case, a one-of source the value of its first
+successful candidate); a switch node has the value of the case whose label its decision node returned; a one-of head has
+the value of the first candidate, in declared order, that has one -/
+structure SolutionOne (P : Program) (val : Node → Option Val) : Prop where
+  plain : ∀ n, P.g.isSwitch n = false → P.g.isOneofHead n = false →
+    val n = if (P.g.preds n).all (fun p => (val p).isSome) then valueOf P n (kwFrom P val n) else none
+  sw    : ∀ S, P.g.isSwitch S = true → val S = (swSel P val S).bind val
+  head  : ∀ h, P.g.isOneofHead h = true → val h = (cands P h).findSome? val
+  /-- (used by the one-of theorems only) the input node itself does not fail -/
+  input : HasHeads P → (val P.g.input).isSome = true
+
+/-- the equations of a switch-only program -/
 structure SolutionSw (P : Program) (val : Node → Option Val) : Prop where
   plain : ∀ n, P.g.isSwitch n = false →
     val n = if (P.g.preds n).all (fun p => (val p).isSome) then valueOf P n (kwFrom P val n) else none
   sw    : ∀ S, P.g.isSwitch S = true → val S = (swSel P val S).bind val
+
+/-- in a program without one-ofs no exception object is ever stored: `SolutionSw` programs -/
+theorem SolutionSw.toOne {P : Program} (h : SolutionSw P val) (hsw : SwP P) : SolutionOne P val :=
+  ⟨fun n h1 _ => h.plain n h1, h.sw, fun x hx => (by rw [hsw.noHead x] at hx; cases hx),
+   fun hh => absurd hh hsw.noHeads⟩
 
 /-- the decision recorded for switch `S` is the semantic one -/
 def SwChoice (P : Program) (val : Node → Option Val) (S : Node) (l : Label) (c : Node) : Prop :=
@@ -52,63 +148,78 @@ theorem SwChoice.sel {P : Program} {S : Node} {l : Label} {c : Node} (h : SwChoi
 /-! ### laziness: what the dataflow reading needs -/
 
 /-- the nodes the result depends on: the output; every source of a needed ordinary node; the decision node and the
-**selected** case of a needed switch (a case that is not selected is needed only if somebody else needs it) -/
+**selected** case of a needed switch (a case that is not selected is needed only if somebody else needs it); the
+non-candidate sources of a needed one-of head and every candidate **all of whose predecessors in the declared order have
+no value** -/
 inductive Demanded (P : Program) (val : Node → Option Val) : Node → Prop
   | out : Demanded P val P.g.output
-  | pred {n p : Node} : Demanded P val n → P.g.isSwitch n = false → p ∈ P.g.preds n → Demanded P val p
+  | pred {n p : Node} : Demanded P val n → P.g.isSwitch n = false → P.g.isOneofHead n = false → p ∈ P.g.preds n →
+      Demanded P val p
   | decider {S : Node} {e : Edge} : Demanded P val S → P.g.isSwitch S = true → e ∈ P.g.edges → e.v = S →
       e.isSwitch = true → Demanded P val e.u
   | case {S c : Node} : Demanded P val S → P.g.isSwitch S = true → swSel P val S = some c → Demanded P val c
+  | headDep {h : Node} {e : Edge} : Demanded P val h → P.g.isOneofHead h = true → e ∈ P.g.edges → e.v = h →
+      (cands P h).contains e.u = false → Demanded P val e.u
+  | cand {h c : Node} {pre post : List Node} : Demanded P val h → P.g.isOneofHead h = true →
+      cands P h = pre ++ c :: post → (∀ x ∈ pre, val x = none) → Demanded P val c
 
-/-- need propagates backwards along every edge a reduced DAG can contain (case edges are filtered out) -/
-theorem Demanded.back_edge {P : Program} (hsw : SwP P) {s : St} {a b : Node}
+/-- need propagates backwards along every edge a reduced DAG can contain (case edges and candidate→head edges are
+filtered out) -/
+theorem Demanded.back_edge {P : Program} (hsw : OneP P) {s : St} {a b : Node}
     (he : Graph.VEdge P.g (filteredView P s) a b) (hb : Demanded P val b) : Demanded P val a := by
   obtain ⟨e, hm, hu, hv, hok⟩ := he
   subst hu hv
+  simp only [filteredView, Bool.and_eq_true, Option.isNone_iff_eq_none, Bool.not_eq_true'] at hok
   cases hS : P.g.isSwitch e.v with
   | false =>
-    refine .pred hb hS ?_
-    simp only [Graph.preds, List.mem_map, List.mem_filter, beq_iff_eq]
-    exact ⟨e, ⟨hm, rfl⟩, rfl⟩
+    cases hH : P.g.isOneofHead e.v with
+    | false =>
+      refine .pred hb hS hH ?_
+      simp only [Graph.preds, List.mem_map, List.mem_filter, beq_iff_eq]
+      exact ⟨e, ⟨hm, rfl⟩, rfl⟩
+    | true => exact .headDep hb hH hm rfl hok.2
   | true =>
     rcases hsw.swEdges e hm hS with h1 | h1
     · exact .decider hb hS hm rfl h1
-    · simp only [filteredView, Bool.and_eq_true, Option.isNone_iff_eq_none] at hok
-      rw [hok.1] at h1; cases h1
+    · rw [hok.1] at h1; cases h1
 
-theorem Demanded.of_vreach {P : Program} (hsw : SwP P) {s : St} {a b : Node}
+theorem Demanded.of_vreach {P : Program} (hsw : OneP P) {s : St} {a b : Node}
     (h : Graph.VReach P.g (filteredView P s) a b) : Demanded P val b → Demanded P val a := by
   induction h with
   | refl => exact id
   | tail _ he ih => exact fun hc => ih (Demanded.back_edge hsw he hc)
 
-/-- every node of a reduced DAG that ends in a needed node is needed -/
-theorem Demanded.of_reducedRef {P : Program} (hsw : SwP P) {s : St} {src dst : Node} {f1 f2 f3 : Bool} {d : DagRef}
-    (h : reducedRef P s src dst f1 f2 f3 = some d) (hd : Demanded P val dst) : ∀ n ∈ d.nodes, Demanded P val n := by
+/-- the input and the output node are always visible: a reduced DAG is never the one-node special case -/
+theorem vnodes_not_single {P : Program} (hsw : OneP P) (s : St) (x : Node) :
+    P.g.vnodes (filteredView P s) ≠ [x] := by
+  intro h
+  have hi : P.g.input ∈ P.g.vnodes (filteredView P s) := by
+    simp only [Graph.vnodes, List.mem_filter, filteredView, hsw.inIn.2, Bool.not_false, Bool.true_or, and_true]
+    exact hsw.inIn.1
+  have ho : P.g.output ∈ P.g.vnodes (filteredView P s) := by
+    simp only [Graph.vnodes, List.mem_filter, filteredView, hsw.outIn.2, Bool.not_false, Bool.true_or, and_true]
+    exact hsw.outIn.1
+  rw [h, List.mem_singleton] at hi ho
+  exact hsw.inOut (hi.trans ho.symm)
+
+/-- the nodes of a reduced DAG reach its destination along edges the view keeps -/
+theorem reducedRef_reach {P : Program} (hsw : OneP P) {s : St} {src dst : Node} {f1 f2 f3 : Bool} {d : DagRef}
+    (h : reducedRef P s src dst f1 f2 f3 = some d) :
+    d.isRec = f1 ∧ d.isOneof = f2 ∧ d.isNested = f3 ∧ ∀ n ∈ d.nodes, Graph.VReach P.g (filteredView P s) n dst := by
   unfold reducedRef at h
   simp only [] at h
   split at h
-  · next x hx =>
-    -- a graph with a single visible node: that node is the output
-    have hv : P.g.vnodes (filteredView P s) = P.g.nodes := by
-      simp only [Graph.vnodes, filteredView]
-      rw [List.filter_eq_self]
-      intro n hn
-      simp [hsw.noChild n hn]
-    rw [hv] at hx
-    cases h
-    intro n hn
-    simp only [List.mem_singleton] at hn
-    have ho := hsw.outIn
-    rw [hx, List.mem_singleton] at ho
-    rw [hn, ← ho]
-    exact .out
+  · next x hx => exact absurd hx (vnodes_not_single hsw s x)
   · split at h
     · cases h
     · next ns hns =>
       cases h
-      intro n hn
-      exact Demanded.of_vreach hsw (Graph.between_sound hns hn) hd
+      exact ⟨rfl, rfl, rfl, fun n hn => Graph.between_sound hns hn⟩
+
+/-- every node of a reduced DAG that ends in a needed node is needed -/
+theorem Demanded.of_reducedRef {P : Program} (hsw : OneP P) {s : St} {src dst : Node} {f1 f2 f3 : Bool} {d : DagRef}
+    (h : reducedRef P s src dst f1 f2 f3 = some d) (hd : Demanded P val dst) : ∀ n ∈ d.nodes, Demanded P val n :=
+  fun n hn => Demanded.of_vreach hsw ((reducedRef_reach hsw h).2.2.2 n hn) hd
 
 /-- the state carries a ghost flag saying that the oracle once supplied a launch order the model rejects; laziness
 facts hold unless it is set -/
@@ -120,18 +231,20 @@ theorem Lz.intro {s : St} {X : Prop} (h : X) : Lz s X := Or.inr h
 
 /-! ### why a run may fail -/
 
-/-- the possible origins of an exception in a run of a switch-only program: the final failure of a node on its dataflow
-arguments, a failing collaborator, a switch whose decision value names no case, or a lookup error of the engine's setup
-(a case not reachable from the input; pools not registered) -/
+/-- the possible origins of an exception: the final failure of a node on its dataflow arguments, a failing collaborator,
+a switch whose decision value names no case, a one-of none of whose candidates has a value, or a lookup error of the
+engine's setup (a case not reachable from the input; pools not registered) -/
 def ErrCause (P : Program) (val : Node → Option Val) (e : Exc) : Prop :=
-  (∃ n, P.g.isSwitch n = false ∧ NodeFails P val n e) ∨ CollabFails P e ∨
-  (∃ S, P.g.isSwitch S = true ∧ e = ⟨"SwitchNoCase", S, 0, 0⟩ ∧ (switchLabelV P val S).isSome = true ∧
-    swSel P val S = none) ∨
-  e = ⟨"Other:NodeNotFound", 0, 0, 0⟩ ∨ (P.poolsOk = false ∧ e = ⟨"Other:RuntimeError", 0, 0, 0⟩)
+  (∃ n, P.g.isSwitch n = false ∧ P.g.isOneofHead n = false ∧ NodeFails P val n e) ∨ CollabFails P e ∨
+  (∃ S, P.g.isSwitch S = true ∧ e = ⟨"SwitchNoCase", S, 0, 0⟩ ∧ swSel P val S = none) ∨
+  e = ⟨"Other:NodeNotFound", 0, 0, 0⟩ ∨ (P.poolsOk = false ∧ e = ⟨"Other:RuntimeError", 0, 0, 0⟩) ∨
+  (∃ h, P.g.isOneofHead h = true ∧ e = ⟨"OneOfNoResult", h, 0, 0⟩ ∧ val h = none)
 
-/-- what an outcome of `chart.run` must be: the value of the output node, or an error with a cause -/
+/-- what an outcome of `chart.run` must be: the value of the output node, or an error with a cause.  (An exception
+object can be returned as a value only if the output node was executed inside a one-of scope, which a valid launch
+order excludes — see `SData.outLz`.) -/
 def OutcomeOKSw (P : Program) (val : Node → Option Val) : Outcome → Prop
-  | .value v => val P.g.output = some v
+  | .value v => (v.isExc = false → val P.g.output = some v) ∧ (v.isExc = true → HasHeads P)
   | .error e => ErrCause P val e
   | .raised e => ErrCause P val e
   | .cancelled => True
@@ -147,6 +260,9 @@ def InputsReady (P : Program) (s : St) (n : Node) : Prop := ∀ e ∈ P.g.edges,
 def DeciderReady (P : Program) (s : St) (S : Node) : Prop :=
   ∀ e ∈ P.g.edges, e.v = S → e.isSwitch = true → (s.res e.u).isSome = true
 
+/-- an ordinary node: neither a synthetic switch node nor a synthetic one-of head -/
+def Ord (P : Program) (n : Node) : Prop := P.g.isSwitch n = false ∧ P.g.isOneofHead n = false
+
 def PcOK (P : Program) (val : Node → Option Val) (s : St) (n : Node) : NodePc → Prop
   | .start => InputsReady P s n
   | .evWait => True
@@ -155,42 +271,67 @@ def PcOK (P : Program) (val : Node → Option Val) (s : St) (n : Node) : NodePc 
   | .cbStart _ inv => InputsReady P s n ∧ inv = 0
   | .cbRetry _ k kw inv => Att P val n (k + 1) kw inv
   | .cbOk _ v => val n = some v ∧ v.isRecur = false ∧ v.isExc = false
-  | .cbFail _ e => ErrCause P val e
+  | .cbFail _ e => ErrCause P val e ∧ val n = none
   | .cbSave _ => True
 
+/-- the flags of the DAG a frame works on: not a recurrent DAG; a one-of DAG only in a program with one-ofs -/
+structure DagFl (P : Program) (d : DagRef) : Prop where
+  notRec : d.isRec = false
+  one    : d.isOneof = true → HasHeads P
+
+/-- `sub` is the reduced DAG of candidate `cand`: every node of it reaches `cand` along dependency edges, `cand` is one
+of them, and it is a one-of DAG -/
+structure SubOK (P : Program) (sub : DagRef) (cand : Node) : Prop where
+  fl    : DagFl P sub
+  isOne : sub.isOneof = true
+  reach : ∀ x ∈ sub.nodes, Graph.VReach P.g (filteredView P init) x cand
+  mem   : cand ∈ sub.nodes
+
 def FrameOK (P : Program) (val : Node → Option Val) (s : St) : Frame → Prop
-  | .node d n force pc => d.isOneof = false ∧ d.isRec = false ∧ force = false ∧ P.g.isSwitch n = false ∧
-      Lz s (Demanded P val n) ∧ PcOK P val s n pc
-  | .dagInit d => (d.isOneof = false ∧ d.isRec = false) ∧ Lz s (∀ n ∈ d.nodes, Demanded P val n)
-  | .dagLaunch d rest => (d.isOneof = false ∧ d.isRec = false) ∧ Lz s (∀ n ∈ d.nodes, Demanded P val n) ∧
-      Lz s (∀ n ∈ rest, n ∈ d.nodes)
-  | .dagWaitDest d => d.isOneof = false ∧ d.isRec = false
-  | .switchStart d n => d.isOneof = false ∧ d.isRec = false ∧ P.g.isSwitch n = true ∧ Lz s (Demanded P val n) ∧
-      DeciderReady P s n
-  | .switchRet d _ => d.isOneof = false ∧ d.isRec = false
+  | .node d n force pc => DagFl P d ∧ force = false ∧ Ord P n ∧ Lz s (Demanded P val n) ∧ PcOK P val s n pc
+  | .dagInit d => DagFl P d ∧ Lz s (∀ n ∈ d.nodes, Demanded P val n)
+  | .dagLaunch d rest => DagFl P d ∧ Lz s (∀ n ∈ d.nodes, Demanded P val n) ∧ Lz s (∀ n ∈ rest, n ∈ d.nodes)
+  | .dagWaitDest d => DagFl P d
+  | .switchStart d n => DagFl P d ∧ P.g.isSwitch n = true ∧ Lz s (Demanded P val n) ∧ DeciderReady P s n
+  | .switchRet d _ => DagFl P d
   | .mgrStart => True
   | .mgrWait => True
   | .mgrCbStart _ => True
   | .mgrCbComplete _ o => OutcomeOKSw P val o
-  | .oneofStart _ _ => False
-  | .oneofWait _ _ _ _ _ => False
+  | .oneofStart d h => DagFl P d ∧ P.g.isOneofHead h = true ∧ Lz s (Demanded P val h)
+  | .oneofWait d h cand rest sub => DagFl P d ∧ P.g.isOneofHead h = true ∧ Lz s (Demanded P val h) ∧
+      (∃ pre, cands P h = pre ++ cand :: rest ∧ ∀ x ∈ pre, val x = none) ∧ SubOK P sub cand
   | .recStart _ _ _ => False
   | .recIterRet _ _ _ _ _ => False
   | .recDfltRet _ _ _ => False
 
-/-- results and switch decisions only grow -/
+/-- results and switch decisions only grow: a stored value (not an exception object) never changes, a stored result
+stays a result -/
 structure Grows (s s' : St) : Prop where
-  res : ∀ n v, s.res n = some v → s'.res n = some v
+  res : ∀ n v, s.res n = some v → ∃ v', s'.res n = some v' ∧ (v.isExc = false → v' = v)
   sw  : ∀ S lc, s.sw S = some lc → s'.sw S = some lc
   bad : s.badOrd = true → s'.badOrd = true
 
-theorem Grows.refl (s : St) : Grows s s := ⟨fun _ _ h => h, fun _ _ h => h, id⟩
+theorem Grows.refl (s : St) : Grows s s := ⟨fun _ v h => ⟨v, h, fun _ => rfl⟩, fun _ _ h => h, id⟩
 
-theorem Grows.trans {a b c : St} (h1 : Grows a b) (h2 : Grows b c) : Grows a c :=
-  ⟨fun n v h => h2.res n v (h1.res n v h), fun S lc h => h2.sw S lc (h1.sw S lc h), fun h => h2.bad (h1.bad h)⟩
+theorem Grows.trans {a b c : St} (h1 : Grows a b) (h2 : Grows b c) : Grows a c := by
+  refine ⟨?_, fun S lc h => h2.sw S lc (h1.sw S lc h), fun h => h2.bad (h1.bad h)⟩
+  intro n v h
+  obtain ⟨v1, hv1, e1⟩ := h1.res n v h
+  obtain ⟨v2, hv2, e2⟩ := h2.res n v1 hv1
+  refine ⟨v2, hv2, ?_⟩
+  intro hne
+  have := e1 hne
+  subst this
+  exact e2 hne
 
 theorem Grows.of_eq {s s' : St} (h1 : s'.res = s.res) (h2 : s'.sw = s.sw) (h3 : s'.badOrd = s.badOrd) : Grows s s' :=
-  ⟨fun n v h => by rw [h1]; exact h, fun S lc h => by rw [h2]; exact h, fun h => by rw [h3]; exact h⟩
+  ⟨fun n v h => ⟨v, by rw [h1]; exact h, fun _ => rfl⟩, fun S lc h => by rw [h2]; exact h, fun h => by rw [h3]; exact h⟩
+
+theorem Grows.isSome {s s' : St} (g : Grows s s') {n : Node} (h : (s.res n).isSome = true) : (s'.res n).isSome = true := by
+  cases hr : s.res n with
+  | none => rw [hr] at h; cases h
+  | some v => obtain ⟨v', hv', _⟩ := g.res n v hr; rw [hv']; rfl
 
 theorem Lz.mono {s s' : St} (g : Grows s s') {X : Prop} (h : Lz s X) : Lz s' X := h.elim (fun b => Or.inl (g.bad b)) Or.inr
 
@@ -200,32 +341,22 @@ theorem SrcReady.mono {P : Program} {s s' : St} (g : Grows s s') {u : Node} (h :
   · next hsw =>
     simp only [hsw, if_true] at h
     obtain ⟨l, c, h1, h2⟩ := h
-    refine ⟨l, c, g.sw _ _ h1, ?_⟩
-    cases hr : s.res c with
-    | none => rw [hr] at h2; simp at h2
-    | some v => rw [g.res c v hr]; rfl
+    exact ⟨l, c, g.sw _ _ h1, g.isSome h2⟩
   · next hsw =>
     simp only [hsw] at h
-    cases hr : s.res u with
-    | none => rw [hr] at h; simp at h
-    | some v => rw [g.res u v hr]; rfl
+    exact g.isSome h
 
 theorem InputsReady.mono {P : Program} {s s' : St} (g : Grows s s') {n : Node} (h : InputsReady P s n) :
     InputsReady P s' n := fun e he hv => (h e he hv).mono g
 
 theorem DeciderReady.mono {P : Program} {s s' : St} (g : Grows s s') {n : Node} (h : DeciderReady P s n) :
-    DeciderReady P s' n := by
-  intro e he hv hsw
-  have := h e he hv hsw
-  cases hr : s.res e.u with
-  | none => rw [hr] at this; simp at this
-  | some v => rw [g.res _ v hr]; rfl
+    DeciderReady P s' n := fun e he hv hsw => g.isSome (h e he hv hsw)
 
 theorem FrameOK.mono {P : Program} {s s' : St} (g : Grows s s') {f : Frame} (h : FrameOK P val s f) : FrameOK P val s' f := by
   cases f with
   | node d n force pc =>
-    obtain ⟨h1, h2, h3, h4, h4', h5⟩ := h
-    refine ⟨h1, h2, h3, h4, h4'.mono g, ?_⟩
+    obtain ⟨h1, h3, h4, h4', h5⟩ := h
+    refine ⟨h1, h3, h4, h4'.mono g, ?_⟩
     cases pc with
     | start => exact InputsReady.mono g h5
     | cbStart j inv => exact ⟨InputsReady.mono g h5.1, h5.2⟩
@@ -236,7 +367,7 @@ theorem FrameOK.mono {P : Program} {s s' : St} (g : Grows s s') {f : Frame} (h :
     | cbOk j v => exact h5
     | cbFail j e => exact h5
     | cbSave j => trivial
-  | switchStart d n => exact ⟨h.1, h.2.1, h.2.2.1, h.2.2.2.1.mono g, h.2.2.2.2.mono g⟩
+  | switchStart d n => exact ⟨h.1, h.2.1, h.2.2.1.mono g, h.2.2.2.mono g⟩
   | dagInit d => exact ⟨h.1, h.2.mono g⟩
   | dagLaunch d r => exact ⟨h.1, h.2.1.mono g, h.2.2.mono g⟩
   | dagWaitDest d => exact h
@@ -245,8 +376,8 @@ theorem FrameOK.mono {P : Program} {s s' : St} (g : Grows s s') {f : Frame} (h :
   | mgrWait => trivial
   | mgrCbStart j => trivial
   | mgrCbComplete j o => exact h
-  | oneofStart d hd => exact h
-  | oneofWait d hd c r sub => exact h
+  | oneofStart d hd => exact ⟨h.1, h.2.1, h.2.2.mono g⟩
+  | oneofWait d hd c r sub => exact ⟨h.1, h.2.1, h.2.2.1.mono g, h.2.2.2⟩
   | recStart d n r => exact h
   | recIterRet d n st g' k => exact h
   | recDfltRet d n st => exact h
@@ -259,8 +390,13 @@ structure SData (P : Program) (val : Node → Option Val) (s : St) : Prop where
   procHid : ∀ n, s.procHid n = false
   addl    : ∀ n, s.additional n = none
   hides   : ∀ n, s.hideCount n = 0
-  vals    : ∀ n v, s.res n = some v → v.isRecur = false ∧ v.isExc = false
-  agree   : ∀ n v, s.res n = some v → val n = some v ∧ P.g.isSwitch n = false
+  vals    : ∀ n v, s.res n = some v → v.isRecur = false
+  /-- a stored value is the node's value in the dataflow reading -/
+  agree   : ∀ n v, s.res n = some v → v.isExc = false → val n = some v
+  /-- synthetic switch nodes never get a result of their own -/
+  notSw   : ∀ n v, s.res n = some v → P.g.isSwitch n = false
+  /-- a stored exception object (a failure contained by a one-of scope) belongs to a node without a value -/
+  excOK   : ∀ n e, s.res n = some (.exc e) → val n = none ∧ ErrCause P val e ∧ HasHeads P
   swOK    : ∀ S l c, s.sw S = some (l, c) → SwChoice P val S l c
   out     : ∀ o, s.outcome = some o → OutcomeOKSw P val o
   /-- laziness: only needed nodes are ever marked as processed (unless the oracle misbehaved) -/
@@ -318,6 +454,8 @@ theorem SData.of_same {P : Program} {s s' : St} (h : SData P val s) (e : SameDat
   ⟨fun n => by rw [e.resHid]; exact h.resHid n, fun n => by rw [e.procHid]; exact h.procHid n,
    fun n => by rw [e.addl]; exact h.addl n, fun n => by rw [e.hides]; exact h.hides n,
    fun n v hv => by rw [e.res] at hv; exact h.vals n v hv, fun n v hv => by rw [e.res] at hv; exact h.agree n v hv,
+   fun n v hv => by rw [e.res] at hv; exact h.notSw n v hv,
+   fun n x hv => by rw [e.res] at hv; exact h.excOK n x hv,
    fun S l c hs => by rw [e.sw] at hs; exact h.swOK S l c hs, fun o ho => by rw [e.outcome] at ho; exact h.out o ho,
    by unfold Lz; rw [e.bad, e.proc]; exact h.lazy⟩
 
@@ -435,7 +573,8 @@ def ObsOK (P : Program) (val : Node → Option Val) : Obs → Prop
       finalOf P n (kwFrom P val n) = some .default
   | .save n v => val n = some v ∧ v.isRecur = false ∧ v.isExc = false
   | .ncomplete n none => (val n).isSome = true
-  | .ncomplete n (some e) => (∃ k, P.body n (kwFrom P val n) 0 k = .raise e) ∨ CollabFails P e
+  | .ncomplete n (some e) => (∃ k, P.body n (kwFrom P val n) 0 k = .raise e) ∨ CollabFails P e ∨
+      (ErrCause P val e ∧ val n = none)
   | .pcomplete o => OutcomeOKSw P val o
   | .returned o => OutcomeOKSw P val o
   | _ => True
@@ -511,45 +650,107 @@ theorem good_raiseOut {P : Program} {s : St} (c : Ctx) (hcP : c.P = P) (h : SInv
   rw [hcP]
   exact good_endTask c (h.unwindFrames below) ho r hr
 
-/-- storing a result that agrees with the solution -/
+theorem grows_setRes_val {P : Program} {s : St} (hd : SData P val s) (n : Node) (v : Val) (hv : val n = some v) :
+    Grows s (s.setRes n v) := by
+  refine ⟨?_, fun _ _ h => h, id⟩
+  intro m w hm
+  simp only [St.setRes, upd]
+  split
+  · next he =>
+    subst he
+    refine ⟨v, rfl, ?_⟩
+    intro hne
+    have := hd.agree m w hm hne
+    rw [hv] at this; exact Option.some.inj this
+  · exact ⟨w, hm, fun _ => rfl⟩
+
+theorem grows_setRes_exc {P : Program} {s : St} (hd : SData P val s) (n : Node) (e : Exc) (hv : val n = none) :
+    Grows s (s.setRes n (.exc e)) := by
+  refine ⟨?_, fun _ _ h => h, id⟩
+  intro m w hm
+  simp only [St.setRes, upd]
+  split
+  · next he =>
+    subst he
+    refine ⟨.exc e, rfl, ?_⟩
+    intro hne
+    have := hd.agree m w hm hne
+    rw [hv] at this; cases this
+  · exact ⟨w, hm, fun _ => rfl⟩
+
+/-- storing a value that agrees with the solution -/
 theorem SInvX.setRes {P : Program} {ex : Option Nat} {s : St} (h : SInvX P val ex s) (n : Node) (v : Val)
-    (hv : val n = some v) (hok : v.isRecur = false ∧ v.isExc = false) (hns : P.g.isSwitch n = false)
-    (hold : ∀ w, s.res n = some w → w = v) : SInvX P val ex (s.setRes n v) := by
-  have g : Grows s (s.setRes n v) := by
-    refine ⟨?_, fun _ _ h => h, id⟩
-    intro m w hm
-    simp only [St.setRes, upd]
-    split
-    · next he => subst he; rw [hold w hm]
-    · exact hm
-  refine h.transport ?_ g (fun i tk hi => Or.inl (old_task hi))
-  refine ⟨?_, h.data.procHid, h.data.addl, h.data.hides, ?_, ?_, h.data.swOK, h.data.out, h.data.lazy⟩
+    (hv : val n = some v) (hok : v.isRecur = false ∧ v.isExc = false) (hns : P.g.isSwitch n = false) :
+    SInvX P val ex (s.setRes n v) := by
+  refine h.transport ?_ (grows_setRes_val h.data n v hv) (fun i tk hi => Or.inl (old_task hi))
+  refine ⟨?_, h.data.procHid, h.data.addl, h.data.hides, ?_, ?_, ?_, ?_, h.data.swOK, h.data.out, h.data.lazy⟩
   · intro m; simp only [St.setRes, upd]; split
     · rfl
     · exact h.data.resHid m
   · intro m w hm
     simp only [St.setRes, upd] at hm
     split at hm
-    · cases hm; exact hok
+    · cases hm; exact hok.1
     · exact h.data.vals m w hm
   · intro m w hm
     simp only [St.setRes, upd] at hm
     split at hm
-    · next he => cases hm; subst he; exact ⟨hv, hns⟩
+    · next he => cases hm; subst he; exact fun _ => hv
     · exact h.data.agree m w hm
+  · intro m w hm
+    simp only [St.setRes, upd] at hm
+    split at hm
+    · next he => subst he; exact hns
+    · exact h.data.notSw m w hm
+  · intro m x hm
+    simp only [St.setRes, upd] at hm
+    split at hm
+    · cases hm; exact absurd hok.2 (by simp [Val.isExc])
+    · exact h.data.excOK m x hm
+
+/-- storing the exception object of a node that has no value (inside a one-of scope) -/
+theorem SInvX.setResExc {P : Program} {ex : Option Nat} {s : St} (h : SInvX P val ex s) (n : Node) (e : Exc)
+    (hv : val n = none) (he : ErrCause P val e) (hh : HasHeads P) (hns : P.g.isSwitch n = false) :
+    SInvX P val ex (s.setRes n (.exc e)) := by
+  refine h.transport ?_ (grows_setRes_exc h.data n e hv) (fun i tk hi => Or.inl (old_task hi))
+  refine ⟨?_, h.data.procHid, h.data.addl, h.data.hides, ?_, ?_, ?_, ?_, h.data.swOK, h.data.out, h.data.lazy⟩
+  · intro m; simp only [St.setRes, upd]; split
+    · rfl
+    · exact h.data.resHid m
+  · intro m w hm
+    simp only [St.setRes, upd] at hm
+    split at hm
+    · cases hm; rfl
+    · exact h.data.vals m w hm
+  · intro m w hm
+    simp only [St.setRes, upd] at hm
+    split at hm
+    · cases hm; intro hne; simp [Val.isExc] at hne
+    · exact h.data.agree m w hm
+  · intro m w hm
+    simp only [St.setRes, upd] at hm
+    split at hm
+    · next he' => subst he'; exact hns
+    · exact h.data.notSw m w hm
+  · intro m x hm
+    simp only [St.setRes, upd] at hm
+    split at hm
+    · next hmn => cases hm; subst hmn; exact ⟨hv, he, hh⟩
+    · exact h.data.excOK m x hm
 
 /-- recording the semantic decision of a switch -/
 theorem SInvX.setSw {P : Program} {ex : Option Nat} {s : St} (h : SInvX P val ex s) (S : Node) (l : Label) (c : Node)
     (hc : SwChoice P val S l c) (hold : ∀ lc, s.sw S = some lc → lc = (l, c)) : SInvX P val ex (s.setSw S (l, c)) := by
   have g : Grows s (s.setSw S (l, c)) := by
-    refine ⟨fun _ _ h => h, ?_, id⟩
+    refine ⟨fun _ v h => ⟨v, h, fun _ => rfl⟩, ?_, id⟩
     intro T lc hT
     simp only [St.setSw, upd]
     split
     · next he => subst he; rw [hold lc hT]
     · exact hT
   refine h.transport ?_ g (fun i tk hi => Or.inl (old_task hi))
-  refine ⟨h.data.resHid, h.data.procHid, h.data.addl, h.data.hides, h.data.vals, h.data.agree, ?_, h.data.out, h.data.lazy⟩
+  refine ⟨h.data.resHid, h.data.procHid, h.data.addl, h.data.hides, h.data.vals, h.data.agree, h.data.notSw, h.data.excOK, ?_, h.data.out,
+    h.data.lazy⟩
   intro T l' c' hT
   simp only [St.setSw, upd] at hT
   split at hT
@@ -559,7 +760,7 @@ theorem SInvX.setSw {P : Program} {ex : Option Nat} {s : St} (h : SInvX P val ex
 theorem SInvX.markProcessed {P : Program} {ex : Option Nat} {s : St} (h : SInvX P val ex s) (n : Node)
     (hdm : Lz s (Demanded P val n)) : SInvX P val ex (s.markProcessed n) := by
   refine h.transport ?_ (Grows.of_eq rfl rfl rfl) (fun i tk hi => Or.inl (old_task hi))
-  refine ⟨h.data.resHid, ?_, h.data.addl, h.data.hides, h.data.vals, h.data.agree, h.data.swOK, h.data.out, ?_⟩
+  refine ⟨h.data.resHid, ?_, h.data.addl, h.data.hides, h.data.vals, h.data.agree, h.data.notSw, h.data.excOK, h.data.swOK, h.data.out, ?_⟩
   · intro m; simp only [St.markProcessed, upd]; split
     · rfl
     · exact h.data.procHid m
@@ -624,7 +825,7 @@ theorem SInvX.cancelTasks {P : Program} {ex : Option Nat} (ts : List Nat) : ∀ 
 theorem SInvX.setOutcome {P : Program} {ex : Option Nat} {s : St} (h : SInvX P val ex s) (o : Outcome)
     (ho : OutcomeOKSw P val o) : SInvX P val ex (s.setOutcome o) := by
   refine h.transport ?_ (Grows.of_eq rfl rfl rfl) (fun i tk hi => Or.inl (old_task hi))
-  refine ⟨h.data.resHid, h.data.procHid, h.data.addl, h.data.hides, h.data.vals, h.data.agree, h.data.swOK, ?_,
+  refine ⟨h.data.resHid, h.data.procHid, h.data.addl, h.data.hides, h.data.vals, h.data.agree, h.data.notSw, h.data.excOK, h.data.swOK, ?_,
     h.data.lazy⟩
   intro o' ho'
   simp only [St.setOutcome, Option.some.injEq] at ho'
@@ -676,8 +877,8 @@ theorem grows_notifyAll (ks : List Key) : ∀ (s : St), Grows s (notifyAll s ks)
 /-- facts shared by the handlers of one section of task `c.t` -/
 structure StepCtx (P : Program) (val : Node → Option Val) (c : Ctx) (s : St) (below : List Frame) : Prop where
   cP  : c.P = P
-  sw  : SwP P
-  sol : SolutionSw P val
+  sw  : OneP P
+  sol : SolutionOne P val
   inv : SInvX P val (some c.t) s
   bel : ∀ f ∈ below, FrameOK P val s f
 
@@ -707,7 +908,7 @@ theorem safe_nodeCbRaiseInTry {P : Program} {c : Ctx} {s : St} {below : List Fra
   unfold nodeCbRaiseInTry
   refine safe_nodeCbRaise x _ ?_ d n e (errCause_collab he)
   split
-  · exact ho.snoc (Or.inr he)
+  · exact ho.snoc (Or.inr (Or.inl he))
   · exact ho
 
 /-- a collaborator call: raise, return at once, or suspend in a justified callback frame -/
@@ -744,28 +945,32 @@ theorem frames_cons {P : Program} {s : St} {below : List Frame} (hb : ∀ f ∈ 
 
 /-- `_run_node` after `_execute_node` returned `v` in the task that executed the node -/
 theorem safe_nodePost_exec {P : Program} {c : Ctx} {s : St} {below : List Frame} (x : StepCtx P val c s below)
-    (obs : List Obs) (ho : ObsAll P val obs) (d : DagRef) (n : Node) (v : Val) (hd : d.isOneof = false ∧ d.isRec = false)
-    (hns : P.g.isSwitch n = false) (hdm : Lz s (Demanded P val n)) (hv : val n = some v) (hok : v.isRecur = false ∧ v.isExc = false) :
+    (obs : List Obs) (ho : ObsAll P val obs) (d : DagRef) (n : Node) (v : Val) (hd : DagFl P d)
+    (hns : Ord P n) (hdm : Lz s (Demanded P val n)) (hv : val n = some v) (hok : v.isRecur = false ∧ v.isExc = false) :
     Good P val (nodePost c s obs d n below v true) := by
-  have hold : ∀ w, s.res n = some w → w = v := by
-    intro w hw
-    have := (x.inv.data.agree n w hw).1
-    rw [hv] at this; exact (Option.some.inj this).symm
-  have g : Grows s (s.setRes n v) := by
-    refine ⟨?_, fun _ _ h => h, id⟩
-    intro m w hm
-    simp only [St.setRes, upd]
-    split
-    · next he => subst he; rw [hold w hm]
-    · exact hm
-  have x1 : StepCtx P val c (s.setRes n v) below := x.to (x.inv.setRes n v hv hok hns hold) g
+  have g : Grows s (s.setRes n v) := grows_setRes_val x.inv.data n v hv
+  have x1 : StepCtx P val c (s.setRes n v) below := x.to (x.inv.setRes n v hv hok hns.1) g
   simp only [nodePost, recSpawn, hok.1, hok.2, Bool.false_eq_true, if_false, storeIf, if_true,
     Bool.not_false, Bool.true_and, Bool.and_true]
   have ho1 : ObsAll P val (obs ++ [.save n v]) := ho.snoc ⟨hv, hok.1, hok.2⟩
   refine safe_cbCall x1 .save n _ ho1 _ _ _ (safe_nodeFinish x1 _ ho1 d n)
     (fun e he => safe_nodeCbRaise x1 _ ho1 d n e (errCause_collab he)) ?_
   intro j
-  exact frames_cons x1.bel _ ⟨hd.1, hd.2, rfl, hns, hdm.mono g, trivial⟩
+  exact frames_cons x1.bel _ ⟨hd, rfl, hns, hdm.mono g, trivial⟩
+
+/-- `_run_node` after `_execute_node` stored the node's failure as its result (inside a one-of scope): nothing is
+saved, the descendants are woken -/
+theorem safe_nodePost_exc {P : Program} {c : Ctx} {s : St} {below : List Frame} (x : StepCtx P val c s below)
+    (obs : List Obs) (ho : ObsAll P val obs) (d : DagRef) (n : Node) (e : Exc) (hv : val n = none)
+    (he : ErrCause P val e) (hh : HasHeads P) (hns : P.g.isSwitch n = false) :
+    Good P val (nodePost c s obs d n below (.exc e) true) := by
+  have g : Grows s (s.setRes n (.exc e)) := grows_setRes_exc x.inv.data n e hv
+  have x1 : StepCtx P val c (s.setRes n (.exc e)) below := x.to (x.inv.setResExc n e hv he hh hns) g
+  simp only [nodePost, recSpawn, Val.isRecur, Val.isExc, Bool.false_eq_true, if_false, storeIf, if_true,
+    Bool.not_false, Bool.true_and, Bool.and_true, Bool.not_true, Bool.and_false]
+  rw [x.cP]
+  exact good_retTo c (x1.inv.nodeFinally d n true) ho below .none
+    (fun f hf => (x1.bel f hf).mono (grows_nodeFinally P _ d n true))
 
 /-- `_run_node` in a task that only waited for the node: nothing is stored, nothing is saved -/
 theorem safe_nodePost_wait {P : Program} {c : Ctx} {s : St} {below : List Frame} (x : StepCtx P val c s below)
@@ -775,63 +980,79 @@ theorem safe_nodePost_wait {P : Program} {c : Ctx} {s : St} {below : List Frame}
     simp only [St.get, x.inv.data.resHid, Bool.false_eq_true, if_false]
     cases hr : s.res n with
     | none => rfl
-    | some w => exact (x.inv.data.vals n w hr).1
+    | some w => exact x.inv.data.vals n w hr
   simp only [nodePost, recSpawn, hnr, Bool.false_eq_true, if_false, storeIf, Bool.false_and, Bool.not_false]
   rw [x.cP]
   exact good_retTo c (x.inv.nodeFinally d n true) ho below .none
     (fun f hf => (x.bel f hf).mono (grows_nodeFinally P s d n true))
 
 theorem safe_nodeSuccess {P : Program} {c : Ctx} {s : St} {below : List Frame} (x : StepCtx P val c s below)
-    (obs : List Obs) (ho : ObsAll P val obs) (d : DagRef) (n : Node) (v : Val) (hd : d.isOneof = false ∧ d.isRec = false)
-    (hns : P.g.isSwitch n = false) (hdm : Lz s (Demanded P val n)) (hv : val n = some v) (hok : v.isRecur = false ∧ v.isExc = false) :
+    (obs : List Obs) (ho : ObsAll P val obs) (d : DagRef) (n : Node) (v : Val) (hd : DagFl P d)
+    (hns : Ord P n) (hdm : Lz s (Demanded P val n)) (hv : val n = some v) (hok : v.isRecur = false ∧ v.isExc = false) :
     Good P val (nodeSuccess c s obs d n below v) := by
   unfold nodeSuccess
   have ho1 : ObsAll P val (obs ++ [.ncomplete n none]) := ho.snoc (by show (val n).isSome = true; rw [hv]; rfl)
   refine safe_cbCall x .ncomplete n _ ho1 _ _ _ (safe_nodePost_exec x _ ho1 d n v hd hns hdm hv hok)
     (fun e he => safe_nodeCbRaiseInTry x _ ho1 d n e he) ?_
   intro j
-  exact frames_cons x.bel _ ⟨hd.1, hd.2, rfl, hns, hdm, hv, hok⟩
+  exact frames_cons x.bel _ ⟨hd, rfl, hns, hdm, hv, hok⟩
 
+/-- the node failed with `e`: outside a one-of scope the exception leaves the task, inside one it becomes the node's
+result -/
 theorem safe_nodeFailCont {P : Program} {c : Ctx} {s : St} {below : List Frame} (x : StepCtx P val c s below)
-    (obs : List Obs) (ho : ObsAll P val obs) (d : DagRef) (n : Node) (e : Exc) (hd : d.isOneof = false ∧ d.isRec = false)
-    (he : ErrCause P val e) : Good P val (nodeFailCont c s obs d n below e) := by
-  simp only [nodeFailCont, hd.1, Bool.false_eq_true, if_false]
-  rw [x.cP]
-  exact good_raiseOut c x.cP (x.inv.nodeFinally d n true) ho below _ (by intro e' h'; cases h'; exact he)
+    (obs : List Obs) (ho : ObsAll P val obs) (d : DagRef) (n : Node) (e : Exc) (hd : DagFl P d)
+    (hns : Ord P n) (he : ErrCause P val e) (hv : val n = none) : Good P val (nodeFailCont c s obs d n below e) := by
+  unfold nodeFailCont
+  split
+  · next hone => exact safe_nodePost_exc x obs ho d n e hv he (hd.one hone) hns.1
+  · rw [x.cP]
+    exact good_raiseOut c x.cP (x.inv.nodeFinally d n true) ho below _ (by intro e' h'; cases h'; exact he)
 
 theorem safe_nodeFail {P : Program} {c : Ctx} {s : St} {below : List Frame} (x : StepCtx P val c s below)
-    (obs : List Obs) (ho : ObsAll P val obs) (d : DagRef) (n : Node) (e : Exc) (hd : d.isOneof = false ∧ d.isRec = false)
-    (hns : P.g.isSwitch n = false) (hdm : Lz s (Demanded P val n)) (hb : ∃ k, P.body n (kwFrom P val n) 0 k = .raise e) (he : ErrCause P val e) :
-    Good P val (nodeFail c s obs d n below e) := by
+    (obs : List Obs) (ho : ObsAll P val obs) (d : DagRef) (n : Node) (e : Exc) (hd : DagFl P d)
+    (hns : Ord P n) (hdm : Lz s (Demanded P val n)) (hb : ObsOK P val (.ncomplete n (some e)))
+    (he : ErrCause P val e) (hv : val n = none) : Good P val (nodeFail c s obs d n below e) := by
   unfold nodeFail
-  have ho1 : ObsAll P val (obs ++ [.ncomplete n (some e)]) := ho.snoc (Or.inl hb)
-  refine safe_cbCall x .ncomplete n _ ho1 _ _ _ (safe_nodeFailCont x _ ho1 d n e hd he)
+  have ho1 : ObsAll P val (obs ++ [.ncomplete n (some e)]) := ho.snoc hb
+  refine safe_cbCall x .ncomplete n _ ho1 _ _ _ (safe_nodeFailCont x _ ho1 d n e hd hns he hv)
     (fun e' he' => safe_nodeCbRaise x _ ho1 d n e' (errCause_collab he')) ?_
   intro j
-  exact frames_cons x.bel _ ⟨hd.1, hd.2, rfl, hns, hdm, he⟩
+  exact frames_cons x.bel _ ⟨hd, rfl, hns, hdm, he, hv⟩
 
 theorem safe_nodeSleep {P : Program} {c : Ctx} {s : St} {below : List Frame} (x : StepCtx P val c s below)
     (obs : List Obs) (ho : ObsAll P val obs) (d : DagRef) (n : Node) (k : Nat) (kw : Kwargs) (inv : Nat)
-    (hd : d.isOneof = false ∧ d.isRec = false) (hns : P.g.isSwitch n = false) (hdm : Lz s (Demanded P val n)) (ha : Att P val n (k + 1) kw inv) :
+    (hd : DagFl P d) (hns : Ord P n) (hdm : Lz s (Demanded P val n)) (ha : Att P val n (k + 1) kw inv) :
     Good P val (nodeSleep c s obs d n false below k kw inv) := by
   unfold nodeSleep
   simp only []
   split
-  · exact good_block c x.inv (ho.snoc (o := .sleep _) trivial) _ _ (frames_cons x.bel _ ⟨hd.1, hd.2, rfl, hns, hdm, ha⟩)
-  · exact good_yieldNow c x.inv ho _ (frames_cons x.bel _ ⟨hd.1, hd.2, rfl, hns, hdm, ha⟩)
+  · exact good_block c x.inv (ho.snoc (o := .sleep _) trivial) _ _ (frames_cons x.bel _ ⟨hd, rfl, hns, hdm, ha⟩)
+  · exact good_yieldNow c x.inv ho _ (frames_cons x.bel _ ⟨hd, rfl, hns, hdm, ha⟩)
 
 /-- the value the policy ends with is the solution's -/
-theorem SolutionSw.value_of_final {P : Program} (hs : SolutionSw P val) {n : Node} (hns : P.g.isSwitch n = false)
+theorem SolutionOne.value_of_final {P : Program} (hs : SolutionOne P val) {n : Node} (hns : Ord P n)
     (hpr : (P.g.preds n).all (fun p => (val p).isSome) = true) {v : Val}
     (hf : finalOf P n (kwFrom P val n) = some (.value v) ∨
           (finalOf P n (kwFrom P val n) = some .default ∧ v = P.dflt n (kwFrom P val n))) : val n = some v := by
-  rw [hs.plain n hns, hpr]
+  rw [hs.plain n hns.1 hns.2, hpr]
   simp only [if_true, valueOf]
   rcases hf with h | ⟨h, rfl⟩ <;> rw [h]
 
+/-- a node whose policy ends in a failure has no value -/
+theorem SolutionOne.none_of_failed {P : Program} (hs : SolutionOne P val) {n : Node} (hns : Ord P n) {e : Exc}
+    (hf : NodeFails P val n e) : val n = none := by
+  rw [hs.plain n hns.1 hns.2, hf.1]
+  simp only [if_true, valueOf, hf.2]
+
+/-- a node one of whose sources has no value has no value -/
+theorem SolutionOne.none_of_pred {P : Program} (hs : SolutionOne P val) {n : Node} (hns : Ord P n)
+    (hpr : (P.g.preds n).all (fun p => (val p).isSome) = false) : val n = none := by
+  rw [hs.plain n hns.1 hns.2, hpr]
+  simp
+
 theorem safe_nodeAfterBody {P : Program} {c : Ctx} {s : St} {below : List Frame} (x : StepCtx P val c s below)
     (obs : List Obs) (ho : ObsAll P val obs) (d : DagRef) (n : Node) (k : Nat) (kw : Kwargs) (inv : Nat)
-    (hd : d.isOneof = false ∧ d.isRec = false) (hns : P.g.isSwitch n = false) (hdm : Lz s (Demanded P val n)) (ha : Att P val n k kw inv) :
+    (hd : DagFl P d) (hns : Ord P n) (hdm : Lz s (Demanded P val n)) (ha : Att P val n k kw inv) :
     Good P val (nodeAfterBody c s obs d n false below k kw inv (P.body n kw inv k)) := by
   have hdf : Retry.decide (P.cfg n) k (P.body n kw inv k) = .done .default →
       Good P val (nodeDefault c s obs d n below kw) := by
@@ -844,7 +1065,9 @@ theorem safe_nodeAfterBody {P : Program} {c : Ctx} {s : St} {below : List Frame}
   have hfail : ∀ e, P.body n kw inv k = .raise e → Retry.decide (P.cfg n) k (P.body n kw inv k) = .done (.failed e) →
       Good P val (nodeFail c s obs d n below e) := by
     intro e ho' hdd
-    refine safe_nodeFail x _ ho d n e hd hns hdm ⟨k, ?_⟩ (Or.inl ⟨n, hns, ha.preds, ha.final _ hdd⟩)
+    have hnf : NodeFails P val n e := ⟨ha.preds, ha.final _ hdd⟩
+    refine safe_nodeFail x _ ho d n e hd hns hdm (Or.inl ⟨k, ?_⟩) (Or.inl ⟨n, hns.1, hns.2, hnf⟩)
+      (x.sol.none_of_failed hns hnf)
     rw [← ha.kw_eq, ← ha.inv0]; exact ho'
   unfold nodeAfterBody
   cases hbo : P.body n kw inv k with
@@ -871,7 +1094,7 @@ theorem safe_nodeAfterBody {P : Program} {c : Ctx} {s : St} {below : List Frame}
         refine safe_cbCall x .ncomplete n _ ho1 _ _ _ (safe_nodeSleep x _ ho1 d n k kw inv hd hns hdm hnext)
           (fun e' he' => safe_nodeCbRaiseInTry x _ ho1 d n e' he') ?_
         intro j
-        exact frames_cons x.bel _ ⟨hd.1, hd.2, rfl, hns, hdm, hnext⟩
+        exact frames_cons x.bel _ ⟨hd, rfl, hns, hdm, hnext⟩
     · next hrt =>
       rw [x.cP] at hrt
       split
@@ -884,119 +1107,206 @@ theorem safe_nodeAfterBody {P : Program} {c : Ctx} {s : St} {below : List Frame}
         refine good_raiseOut c x.cP (x.inv.nodeFinally d n true) ho below _ ?_
         intro e' h'
         cases h'
-        exact Or.inl ⟨n, hns, ha.preds, ha.final _ (by rw [hbo]; simp [Retry.decide, hrt, hex])⟩
+        exact Or.inl ⟨n, hns.1, hns.2, ha.preds, ha.final _ (by rw [hbo]; simp [Retry.decide, hrt, hex])⟩
 
 theorem safe_nodeAttempt {P : Program} {c : Ctx} {s : St} {below : List Frame} (x : StepCtx P val c s below)
     (obs : List Obs) (ho : ObsAll P val obs) (d : DagRef) (n : Node) (k : Nat) (kw : Kwargs) (inv : Nat)
-    (hd : d.isOneof = false ∧ d.isRec = false) (hns : P.g.isSwitch n = false) (hdm : Lz s (Demanded P val n)) (ha : Att P val n k kw inv) :
+    (hd : DagFl P d) (hns : Ord P n) (hdm : Lz s (Demanded P val n)) (ha : Att P val n k kw inv) :
     Good P val (nodeAttempt c s obs d n false below k kw inv) := by
   simp only [nodeAttempt, Bool.false_eq_true, if_false, x.cP]
   have ho1 : ObsAll P val (obs ++ [.body n inv k kw]) := ho.snoc ha
   split
   · exact safe_nodeAfterBody x _ ho1 d n k kw inv hd hns hdm ha
-  all_goals exact good_block c x.inv (ho1.snoc (o := .gate _ _ _) trivial) _ _ (frames_cons x.bel _ ⟨hd.1, hd.2, rfl, hns, hdm, ha⟩)
+  all_goals exact good_block c x.inv (ho1.snoc (o := .gate _ _ _) trivial) _ _ (frames_cons x.bel _ ⟨hd, rfl, hns, hdm, ha⟩)
 
 /-! ### arguments -/
 
-/-- an available source has a semantic value, and the engine reads exactly that value for it -/
-theorem src_value {P : Program} (hsol : SolutionSw P val) {s : St} (hd : SData P val s) {u : Node}
+/-- what the engine reads for source `u` -/
+def ReadIs (P : Program) (s : St) (u : Node) (w : Val) : Prop :=
+  if P.g.isSwitch u then (match s.sw u with | some (_, c) => s.getHid c = w | none => False) else s.getHid u = w
+
+/-- an available source either has a semantic value, which is what the engine reads for it, or has none, and the engine
+reads the exception object stored for it (inside a one-of scope) -/
+theorem src_cases {P : Program} (hsol : SolutionOne P val) {s : St} (hd : SData P val s) {u : Node}
     (h : SrcReady P s u) :
-    ∃ v, val u = some v ∧ v.isExc = false ∧
-      (if P.g.isSwitch u then (match s.sw u with | some (_, c) => s.getHid c = v | none => False) else s.getHid u = v) := by
+    (∃ v, val u = some v ∧ v.isExc = false ∧ ReadIs P s u v) ∨
+    (∃ x, val u = none ∧ ErrCause P val x ∧ HasHeads P ∧ ReadIs P s u (.exc x)) := by
+  have key : ∀ c w, s.res c = some w → s.getHid c = w := by intro c w hw; simp [St.getHid, hw]
+  have split_val : ∀ c w, s.res c = some w →
+      (w.isExc = false ∧ val c = some w) ∨ (∃ x, w = .exc x ∧ val c = none ∧ ErrCause P val x ∧ HasHeads P) := by
+    intro c w hw
+    cases hx : w.isExc with
+    | false => exact Or.inl ⟨rfl, hd.agree c w hw hx⟩
+    | true =>
+      cases w <;> simp [Val.isExc] at hx
+      next x => exact Or.inr ⟨x, rfl, hd.excOK c x hw⟩
   unfold SrcReady at h
+  unfold ReadIs
   split at h
   · next hsw =>
     obtain ⟨l, c, h1, h2⟩ := h
+    have hvu : val u = val c := by rw [hsol.sw u hsw, (hd.swOK u l c h1).sel]; rfl
     cases hr : s.res c with
     | none => rw [hr] at h2; simp at h2
-    | some v =>
-      have ha := (hd.agree c v hr).1
-      have hc := hd.swOK u l c h1
-      refine ⟨v, ?_, (hd.vals c v hr).2, ?_⟩
-      · rw [hsol.sw u hsw, hc.sel]; exact ha
-      · simp only [hsw, if_true, h1, St.getHid, hr, Option.getD_some]
+    | some w =>
+      rcases split_val c w hr with ⟨hne, hv⟩ | ⟨x, rfl, hv, he, hh⟩
+      · exact Or.inl ⟨w, by rw [hvu]; exact hv, hne, by simp only [hsw, if_true, h1]; exact key c w hr⟩
+      · exact Or.inr ⟨x, by rw [hvu]; exact hv, he, hh, by simp only [hsw, if_true, h1]; exact key c _ hr⟩
   · next hsw =>
     cases hr : s.res u with
     | none => rw [hr] at h; simp at h
-    | some v =>
-      refine ⟨v, (hd.agree u v hr).1, (hd.vals u v hr).2, ?_⟩
-      simp only [hsw, Bool.false_eq_true, if_false, St.getHid, hr, Option.getD_some]
+    | some w =>
+      rcases split_val u w hr with ⟨hne, hv⟩ | ⟨x, rfl, hv, he, hh⟩
+      · exact Or.inl ⟨w, hv, hne, by simp only [hsw, Bool.false_eq_true, if_false]; exact key u w hr⟩
+      · exact Or.inr ⟨x, hv, he, hh, by simp only [hsw, Bool.false_eq_true, if_false]; exact key u _ hr⟩
 
-theorem kwStep_ready {P : Program} (hsol : SolutionSw P val) {s : St} (hd : SData P val s) (kw : Kwargs) (e : Edge)
-    (h : SrcReady P s e.u) :
-    kwStep P s (.ok kw) e = .ok (match e.kwarg with
-      | some k => insertKw kw k ((val e.u).getD .none)
-      | none => kw) := by
-  obtain ⟨v, hv, hne, hrd⟩ := src_value hsol hd h
+theorem kwStep_read {P : Program} {s : St} (kw : Kwargs) (e : Edge) (k : String) (w : Val) (hk : e.kwarg = some k)
+    (hr : ReadIs P s e.u w) : kwStep P s (.ok kw) e = kwPut kw k w := by
   unfold kwStep
-  cases hk : e.kwarg with
-  | none => rfl
-  | some k =>
-    simp only [hv, Option.getD_some]
-    have hput : kwPut kw k v = .ok (insertKw kw k v) := by
-      cases v <;> simp [Val.isExc] at hne <;> rfl
+  simp only [hk]
+  unfold ReadIs at hr
+  split
+  · next hsw =>
+    simp only [hsw, if_true] at hr
     split
-    · next hsw =>
-      simp only [hsw, if_true] at hrd
-      split
-      · next l c hsc => simp only [hsc] at hrd; rw [hrd]; exact hput
-      · next hsc => simp [hsc] at hrd
-    · next hsw =>
-      simp only [hsw, Bool.false_eq_true, if_false] at hrd
-      rw [hrd]; exact hput
+    · next l c hsc => simp only [hsc] at hr; rw [hr]
+    · next hsc => simp [hsc] at hr
+  · next hsw =>
+    simp only [hsw, Bool.false_eq_true, if_false] at hr
+    rw [hr]
 
-/-- with all inputs available, the engine's keyword arguments are the declared ones and every source has a value -/
-theorem nodeKwargs_ready {P : Program} (hsol : SolutionSw P val) {s : St} (hd : SData P val s) (n : Node)
-    (hin : InputsReady P s n) :
-    nodeKwargs P s n = .ok (kwFrom P val n) ∧ (P.g.preds n).all (fun p => (val p).isSome) = true := by
-  have hfold : ∀ (es : List Edge) (kw0 : Kwargs), (∀ e ∈ es, SrcReady P s e.u) →
-      es.foldl (kwStep P s) (KwRes.ok kw0) = .ok (es.foldl (fun kw e => match e.kwarg with
-        | some k => insertKw kw k ((val e.u).getD .none)
-        | none => kw) kw0) := by
-    intro es
-    induction es with
-    | nil => intro kw0 _; rfl
-    | cons e es ih =>
-      intro kw0 hm
-      simp only [List.foldl_cons]
-      rw [kwStep_ready hsol hd kw0 e (hm e (by simp))]
-      exact ih _ (fun e' he' => hm e' (by simp [he']))
-  have hedges : ∀ e ∈ P.g.edges.filter (fun e => e.v == n), SrcReady P s e.u := by
-    intro e he
-    simp only [List.mem_filter, beq_iff_eq] at he
-    exact hin e he.1 he.2
-  constructor
-  · have hb : kwBase P s n = .ok (kwFrom P val n) := by
-      unfold kwBase kwFrom
-      split
-      · rfl
-      · exact hfold _ [] hedges
-    simp [nodeKwargs, hb, hd.addl]
-  · rw [List.all_eq_true]
-    intro p hp
-    simp only [Graph.preds, List.mem_map] at hp
-    obtain ⟨e, he, rfl⟩ := hp
-    obtain ⟨v, hv, _, _⟩ := src_value hsol hd (hedges e he)
-    simp [hv]
+theorem foldl_kwStep_err (P : Program) (s : St) (x : Exc) : ∀ es : List Edge, es.foldl (kwStep P s) (.err x) = .err x := by
+  intro es
+  induction es with
+  | nil => rfl
+  | cons e es ih => simp only [List.foldl_cons, kwStep]; exact ih
+
+/-- the declared arguments, one edge at a time -/
+def semStep (val : Node → Option Val) (kw : Kwargs) (e : Edge) : Kwargs :=
+  match e.kwarg with
+  | some k => insertKw kw k ((val e.u).getD .none)
+  | none => kw
+
+/-- folding the incoming edges: either every source has a value and the arguments are the declared ones, or some source
+has none and the first such source's stored exception is the result -/
+theorem kw_fold {P : Program} (hsol : SolutionOne P val) {s : St} (hd : SData P val s) :
+    ∀ (es : List Edge) (kw0 : Kwargs),
+    (∀ e ∈ es, SrcReady P s e.u ∧ (e.kwarg = none → (val e.u).isSome = true ∨ ¬ HasHeads P)) →
+    (es.foldl (kwStep P s) (.ok kw0) = .ok (es.foldl (semStep val) kw0) ∧ ∀ e ∈ es, (val e.u).isSome = true) ∨
+    (∃ x, es.foldl (kwStep P s) (.ok kw0) = .err x ∧ ErrCause P val x ∧ ∃ e ∈ es, val e.u = none) := by
+  intro es
+  induction es with
+  | nil => intro kw0 _; exact Or.inl ⟨rfl, by intro e he; cases he⟩
+  | cons e es ih =>
+    intro kw0 hm
+    simp only [List.foldl_cons]
+    have hrest : ∀ e' ∈ es, SrcReady P s e'.u ∧ (e'.kwarg = none → (val e'.u).isSome = true ∨ ¬ HasHeads P) :=
+      fun e' he' => hm e' (by simp [he'])
+    rcases src_cases hsol hd (hm e (by simp)).1 with ⟨v, hv, hne, hrd⟩ | ⟨x, hv, he, hh, hrd⟩
+    · -- the source has a value
+      have hstep : kwStep P s (.ok kw0) e = .ok (semStep val kw0 e) := by
+        unfold semStep
+        cases hk : e.kwarg with
+        | none => simp [kwStep, hk]
+        | some k =>
+          rw [kwStep_read kw0 e k v hk hrd, hv]
+          cases v <;> simp [Val.isExc] at hne <;> rfl
+      rw [hstep]
+      rcases ih (semStep val kw0 e) hrest with ⟨h1, h2⟩ | ⟨x, h1, h2, e', he', h3⟩
+      · refine Or.inl ⟨h1, ?_⟩
+        intro e' he'
+        rcases List.mem_cons.mp he' with rfl | h
+        · rw [hv]; rfl
+        · exact h2 e' h
+      · exact Or.inr ⟨x, h1, h2, e', by simp [he'], h3⟩
+    · -- the source has none: its stored exception is raised
+      cases hk : e.kwarg with
+      | none =>
+        rcases (hm e (by simp)).2 hk with h | h
+        · rw [hv] at h; cases h
+        · exact absurd hh h
+      | some k =>
+        rw [kwStep_read kw0 e k _ hk hrd]
+        simp only [kwPut]
+        rw [foldl_kwStep_err]
+        exact Or.inr ⟨x, rfl, he, e, by simp, hv⟩
+
+/-- with all inputs available, either every source has a value and the engine's keyword arguments are the declared ones,
+or some source has none and the lookup fails with a stored exception -/
+theorem nodeKwargs_cases {P : Program} (hsw : OneP P) (hsol : SolutionOne P val) {s : St} (hd : SData P val s) (n : Node)
+    (hns : Ord P n) (hin : InputsReady P s n) :
+    (nodeKwargs P s n = .ok (kwFrom P val n) ∧ (P.g.preds n).all (fun p => (val p).isSome) = true) ∨
+    (∃ x, nodeKwargs P s n = .err x ∧ ErrCause P val x ∧ (P.g.preds n).all (fun p => (val p).isSome) = false) := by
+  by_cases hni : n = P.g.input
+  · -- the input node has no sources
+    left
+    subst hni
+    have hp : P.g.preds P.g.input = [] := by
+      simp only [Graph.preds, List.map_eq_nil_iff, List.filter_eq_nil_iff, beq_iff_eq]
+      intro e he hv
+      exact hsw.inRoot e he hv
+    refine ⟨?_, by rw [hp]; rfl⟩
+    simp [nodeKwargs, kwBase, kwFrom, hd.addl]
+  · have hedges : ∀ e ∈ P.g.edges.filter (fun e => e.v == n),
+        SrcReady P s e.u ∧ (e.kwarg = none → (val e.u).isSome = true ∨ ¬ HasHeads P) := by
+      intro e he
+      simp only [List.mem_filter, beq_iff_eq] at he
+      refine ⟨hin e he.1 he.2, ?_⟩
+      intro hk
+      have hu := hsw.kwEdges e he.1 (by rw [he.2]; exact hns) hk
+      by_cases hh : HasHeads P
+      · left; rw [hu]; exact hsol.input hh
+      · exact Or.inr hh
+    have hne : (n == P.g.input) = false := by simpa using hni
+    have hmem : ∀ e ∈ P.g.edges.filter (fun e => e.v == n), e.u ∈ P.g.preds n := by
+      intro e he
+      simp only [Graph.preds, List.mem_map]
+      exact ⟨e, he, rfl⟩
+    rcases kw_fold hsol hd _ [] hedges with ⟨h1, h2⟩ | ⟨x, h1, h2, e, he, h3⟩
+    · left
+      constructor
+      · have hb : kwBase P s n = .ok (kwFrom P val n) := by
+          unfold kwBase kwFrom
+          simp only [hne, Bool.false_eq_true, if_false]
+          exact h1
+        simp [nodeKwargs, hb, hd.addl]
+      · rw [List.all_eq_true]
+        intro p hp
+        simp only [Graph.preds, List.mem_map] at hp
+        obtain ⟨e, he, rfl⟩ := hp
+        exact h2 e he
+    · right
+      refine ⟨x, ?_, h2, ?_⟩
+      · have hb : kwBase P s n = .err x := by
+          unfold kwBase
+          simp only [hne, Bool.false_eq_true, if_false]
+          exact h1
+        simp [nodeKwargs, hb]
+      · rw [List.all_eq_false]
+        exact ⟨e.u, hmem e he, by rw [h3]; simp⟩
 
 theorem safe_nodeBegin {P : Program} {c : Ctx} {s : St} {below : List Frame} (x : StepCtx P val c s below)
-    (obs : List Obs) (ho : ObsAll P val obs) (d : DagRef) (n : Node) (inv : Nat) (hd : d.isOneof = false ∧ d.isRec = false)
-    (hns : P.g.isSwitch n = false) (hdm : Lz s (Demanded P val n)) (hin : InputsReady P s n) (hinv : inv = 0) :
+    (obs : List Obs) (ho : ObsAll P val obs) (d : DagRef) (n : Node) (inv : Nat) (hd : DagFl P d)
+    (hns : Ord P n) (hdm : Lz s (Demanded P val n)) (hin : InputsReady P s n) (hinv : inv = 0) :
     Good P val (nodeBegin c s obs d n false below inv) := by
-  obtain ⟨hkw, hpr⟩ := nodeKwargs_ready x.sol x.inv.data n hin
-  simp only [nodeBegin, x.cP, hkw]
-  exact safe_nodeAttempt x _ ho d n 1 _ inv hd hns hdm
-    ⟨rfl, hpr, hinv, Nat.le_refl 1, Retry.attemptsEff_pos _, fun j h1 h2 => by omega⟩
+  rcases nodeKwargs_cases x.sw x.sol x.inv.data n hns hin with ⟨hkw, hpr⟩ | ⟨e, hkw, he, hpr⟩
+  · simp only [nodeBegin, x.cP, hkw]
+    exact safe_nodeAttempt x _ ho d n 1 _ inv hd hns hdm
+      ⟨rfl, hpr, hinv, Nat.le_refl 1, Retry.attemptsEff_pos _, fun j h1 h2 => by omega⟩
+  · -- a dependency failed inside a one-of scope: the node fails with that error
+    simp only [nodeBegin, x.cP, hkw]
+    have hvn := x.sol.none_of_pred hns hpr
+    exact safe_nodeFail x _ ho d n e hd hns hdm (Or.inr (Or.inr ⟨he, hvn⟩)) he hvn
 
 theorem safe_nodeStart {P : Program} {c : Ctx} {s : St} {below : List Frame} (x : StepCtx P val c s below)
-    (obs : List Obs) (ho : ObsAll P val obs) (d : DagRef) (n : Node) (hd : d.isOneof = false ∧ d.isRec = false)
-    (hns : P.g.isSwitch n = false) (hdm : Lz s (Demanded P val n)) (hin : InputsReady P s n) (hci : CoreInv s.core) :
+    (obs : List Obs) (ho : ObsAll P val obs) (d : DagRef) (n : Node) (hd : DagFl P d)
+    (hns : Ord P n) (hdm : Lz s (Demanded P val n)) (hin : InputsReady P s n) (hci : CoreInv s.core) :
     Good P val (nodeStart c s obs d n false below) := by
   unfold nodeStart
   split
   · split
     · exact safe_nodePost_wait x _ ho d n
-    · exact good_block c x.inv ho _ _ (frames_cons x.bel _ ⟨hd.1, hd.2, rfl, hns, hdm, trivial⟩)
+    · exact good_block c x.inv ho _ _ (frames_cons x.bel _ ⟨hd, rfl, hns, hdm, trivial⟩)
   · next hpe =>
     have hinv0 : s.invCount n = 0 := by
       have := (hci n).2
@@ -1010,12 +1320,12 @@ theorem safe_nodeStart {P : Program} {c : Ctx} {s : St} {below : List Frame} (x 
     refine safe_cbCall x1 .nstart n _ ho1 _ _ _ (safe_nodeBegin x1 _ ho1 d n _ hd hns hdm1 hin1 hinv0)
       (fun e he => safe_nodeCbRaise x1 _ ho1 d n e (errCause_collab he)) ?_
     intro j
-    exact frames_cons x1.bel _ ⟨hd.1, hd.2, rfl, hns, hdm1, hin1, hinv0⟩
+    exact frames_cons x1.bel _ ⟨hd, rfl, hns, hdm1, hin1, hinv0⟩
 
-/-! ### `_run_dag` and `_run_switch` -/
+/-! ### `_run_dag`, `_run_switch`, `_run_oneof` -/
 
-theorem ready_inputs {P : Program} (hsw : SwP P) {s : St} (hd : SData P val s) (d : DagRef)
-    (hdf : d.isOneof = false ∧ d.isRec = false) (n : Node) (hns : P.g.isSwitch n = false)
+theorem ready_inputs {P : Program} {s : St} (hd : SData P val s) (d : DagRef)
+    (hdf : d.isRec = false) (n : Node) (hns : Ord P n)
     (hr : ready P s d n = true) : InputsReady P s n := by
   intro e he hv
   unfold ready at hr
@@ -1026,7 +1336,7 @@ theorem ready_inputs {P : Program} (hsw : SwP P) {s : St} (hd : SData P val s) (
   have hbase : (if P.g.isSwitch e.u then (match s.sw e.u with | some (_, c) => c | none => e.u) else e.u) ∈
       predsFor P s d n := by
     unfold predsFor
-    simp only [hns, hsw.noHead, hdf.2, Bool.false_and, Bool.false_or, Bool.false_eq_true, if_false, List.mem_map]
+    simp only [hns.1, hns.2, hdf, Bool.false_and, Bool.false_or, Bool.false_eq_true, if_false, List.mem_map]
     exact ⟨e.u, hmem, rfl⟩
   have := hr _ hbase
   simp only [Bool.and_eq_true, St.exists, hd.resHid, Bool.not_false, Bool.and_true] at this
@@ -1040,13 +1350,13 @@ theorem ready_inputs {P : Program} (hsw : SwP P) {s : St} (hd : SData P val s) (
       simp only [hsc] at this
       cases hr' : s.res e.u with
       | none => simp [hr'] at this
-      | some w => have := (hd.agree e.u w hr').2; rw [hsu] at this; cases this
+      | some w => have := hd.notSw e.u w hr'; rw [hsu] at this; cases this
   · next hsu =>
     simp only [hsu, Bool.false_eq_true, if_false] at this
     exact this.1
 
-theorem ready_decider {P : Program} (hsw : SwP P) {s : St} (hd : SData P val s) (d : DagRef)
-    (hdf : d.isOneof = false ∧ d.isRec = false) (n : Node) (hns : P.g.isSwitch n = true)
+theorem ready_decider {P : Program} (hsw : OneP P) {s : St} (hd : SData P val s) (d : DagRef)
+    (hdf : d.isRec = false) (n : Node) (hns : P.g.isSwitch n = true)
     (hr : ready P s d n = true) : DeciderReady P s n := by
   intro e he hv hes
   unfold ready at hr
@@ -1054,14 +1364,14 @@ theorem ready_decider {P : Program} (hsw : SwP P) {s : St} (hd : SData P val s) 
   have hpl := hsw.decPlain e he hes
   have hbase : e.u ∈ predsFor P s d n := by
     unfold predsFor
-    simp only [hns, hdf.2, Bool.not_false, Bool.and_self, if_true, List.mem_map, List.mem_filter]
+    simp only [hns, hdf, Bool.not_false, Bool.and_self, if_true, List.mem_map, List.mem_filter]
     exact ⟨e.u, ⟨e, ⟨he, by simp [hv, hes]⟩, rfl⟩, by simp [hpl]⟩
   have := hr _ hbase
   simp only [Bool.and_eq_true, St.exists, hd.resHid, Bool.not_false, Bool.and_true] at this
   exact this.1
 
 theorem safe_dagWaitDest {P : Program} {c : Ctx} {s : St} {below : List Frame} (x : StepCtx P val c s below)
-    (obs : List Obs) (ho : ObsAll P val obs) (d : DagRef) (hd : d.isOneof = false ∧ d.isRec = false) :
+    (obs : List Obs) (ho : ObsAll P val obs) (d : DagRef) (hd : DagFl P d) :
     Good P val (dagWaitDest c s obs d below) := by
   unfold dagWaitDest
   split
@@ -1071,7 +1381,7 @@ theorem safe_dagWaitDest {P : Program} {c : Ctx} {s : St} {below : List Frame} (
   · exact good_block c x.inv ho _ _ (frames_cons x.bel _ hd)
 
 theorem safe_dagLaunch {P : Program} {c : Ctx} {below : List Frame} (d : DagRef)
-    (hd : d.isOneof = false ∧ d.isRec = false) : ∀ (rest : List Node) (s : St) (obs : List Obs),
+    (hd : DagFl P d) : ∀ (rest : List Node) (s : St) (obs : List Obs),
     ObsAll P val obs → StepCtx P val c s below → Lz s (∀ n ∈ d.nodes, Demanded P val n) →
     Lz s (∀ n ∈ rest, n ∈ d.nodes) → Good P val (dagLaunch c d below s obs rest) := by
   intro rest
@@ -1079,29 +1389,37 @@ theorem safe_dagLaunch {P : Program} {c : Ctx} {below : List Frame} (d : DagRef)
   | nil => intro s obs ho x _ _; simp only [dagLaunch]; exact safe_dagWaitDest x obs ho d hd
   | cons n rest ih =>
     intro s obs ho x hdd hrest
-    simp only [dagLaunch, hd.1, Bool.false_and, Bool.false_eq_true, if_false]
+    simp only [dagLaunch]
     split
     · next hr =>
       rw [x.cP] at hr
-      have hdm : Lz s (Demanded P val n) := by
-        rcases hdd with hb | h1
-        · exact Or.inl hb
-        · rcases hrest with hb | h2
+      split
+      · -- a one-of DAG with a failed node: stop launching, wake the one-of
+        refine good_retTo c ((x.inv.notifyAll _).notify _) ho _ _ ?_
+        intro f hf
+        exact (x.bel f hf).mono ((grows_notifyAll _ _).trans (Grows.of_eq rfl rfl rfl))
+      · have hdm : Lz s (Demanded P val n) := by
+          rcases hdd with hb | h1
           · exact Or.inl hb
-          · exact Or.inr (h1 n (h2 n (by simp)))
-      have hf : FrameOK P val s (launchFrame c.P d n) := by
-        unfold launchFrame
-        rw [x.cP]
-        split
-        · next hsn => exact ⟨hd.1, hd.2, hsn, hdm, ready_decider x.sw x.inv.data d hd n hsn hr⟩
-        · next hsn =>
-          simp only [x.sw.noHead, Bool.false_eq_true, if_false]
-          have hsn' : P.g.isSwitch n = false := by simpa using hsn
-          exact ⟨hd.1, hd.2, rfl, hsn', hdm, ready_inputs x.sw x.inv.data d hd n hsn' hr⟩
-      have g : Grows s (spawn s [launchFrame c.P d n] (.node n)).1 := Grows.of_eq rfl rfl rfl
-      have x1 := x.to (x.inv.spawn [launchFrame c.P d n] (.node n) (by intro f hf'; simp at hf'; subst hf'; exact hf)) g
-      exact ih _ _ (ho.snoc (o := .spawn _ _) trivial) x1 (hdd.mono g)
-        ((hrest.mono g).imp (fun h m hm => h m (by simp [hm])))
+          · rcases hrest with hb | h2
+            · exact Or.inl hb
+            · exact Or.inr (h1 n (h2 n (by simp)))
+        have hf : FrameOK P val s (launchFrame c.P d n) := by
+          unfold launchFrame
+          rw [x.cP]
+          split
+          · next hsn => exact ⟨hd, hsn, hdm, ready_decider x.sw x.inv.data d hd.notRec n hsn hr⟩
+          · next hsn =>
+            have hsn' : P.g.isSwitch n = false := by simpa using hsn
+            split
+            · next hhd => exact ⟨hd, hhd, hdm⟩
+            · next hhd =>
+              have hhd' : P.g.isOneofHead n = false := by simpa using hhd
+              exact ⟨hd, rfl, ⟨hsn', hhd'⟩, hdm, ready_inputs x.inv.data d hd.notRec n ⟨hsn', hhd'⟩ hr⟩
+        have g : Grows s (spawn s [launchFrame c.P d n] (.node n)).1 := Grows.of_eq rfl rfl rfl
+        have x1 := x.to (x.inv.spawn [launchFrame c.P d n] (.node n) (by intro f hf'; simp at hf'; subst hf'; exact hf)) g
+        exact ih _ _ (ho.snoc (o := .spawn _ _) trivial) x1 (hdd.mono g)
+          ((hrest.mono g).imp (fun h m hm => h m (by simp [hm])))
     · exact good_block c x.inv ho _ _ (frames_cons x.bel _ ⟨hd, hdd, hrest⟩)
 
 /-- a launch order the model accepts only lists nodes of the DAG -/
@@ -1119,16 +1437,16 @@ theorem SInvX.noteOrder {P : Program} {ex : Option Nat} {s : St} (h : SInvX P va
   unfold St.noteOrder
   split
   · exact ⟨h, Grows.refl s⟩
-  · have g : Grows s { s with badOrd := true } := ⟨fun _ _ h => h, fun _ _ h => h, fun _ => rfl⟩
+  · have g : Grows s { s with badOrd := true } := ⟨fun _ v h => ⟨v, h, fun _ => rfl⟩, fun _ _ h => h, fun _ => rfl⟩
     refine ⟨h.transport ?_ g (fun i tk hi => Or.inl (old_task hi)), g⟩
-    exact ⟨h.data.resHid, h.data.procHid, h.data.addl, h.data.hides, h.data.vals, h.data.agree, h.data.swOK, h.data.out,
-      Or.inl rfl⟩
+    exact ⟨h.data.resHid, h.data.procHid, h.data.addl, h.data.hides, h.data.vals, h.data.agree, h.data.notSw, h.data.excOK,
+      h.data.swOK, h.data.out, Or.inl rfl⟩
 
 theorem safe_dagInit {P : Program} {c : Ctx} {s : St} {below : List Frame} (x : StepCtx P val c s below)
-    (obs : List Obs) (ho : ObsAll P val obs) (d : DagRef) (hd : d.isOneof = false ∧ d.isRec = false)
+    (obs : List Obs) (ho : ObsAll P val obs) (d : DagRef) (hd : DagFl P d)
     (hdd : Lz s (∀ n ∈ d.nodes, Demanded P val n)) : Good P val (dagInit c s obs d below) := by
   unfold dagInit
-  simp only [hd.2, Bool.false_eq_true, if_false]
+  simp only [hd.notRec, Bool.false_eq_true, if_false]
   have ho1 : ObsAll P val (if validOrder c.P s d c.ord then obs ++ [.topo c.ord] else obs ++ [.topo c.ord] ++ [.badOracle]) := by
     exact ObsAll.ite (ho.snoc (o := .topo _) trivial) ((ho.snoc (o := .topo _) trivial).snoc (o := .badOracle) trivial)
   obtain ⟨hi, g⟩ := x.inv.noteOrder (validOrder c.P s d c.ord)
@@ -1141,80 +1459,305 @@ theorem safe_dagInit {P : Program} {c : Ctx} {s : St} {below : List Frame} (x : 
   · exact good_retTo c x1.inv ho1 _ _ x1.bel
   · exact safe_dagLaunch d hd _ _ _ ho1 x1 (hdd.mono g) hrest
 
-theorem reducedRef_flags (P : Program) (s : St) (a b : Node) (sub : DagRef)
-    (h : reducedRef P s a b false false false = some sub) : sub.isOneof = false ∧ sub.isRec = false := by
-  unfold reducedRef at h
-  simp only [] at h
-  split at h
-  · cases h; exact ⟨rfl, rfl⟩
-  · split at h
-    · cases h
-    · cases h; exact ⟨rfl, rfl⟩
+/-- the label the engine reads for a switch whose decision node has a result: the semantic label, or an exception object
+where the semantics has none -/
+theorem switchLabel_cases {P : Program} (hsw : OneP P) {s : St} (hd : SData P val s) (n : Node) (hdr : DeciderReady P s n) :
+    ((switchLabel P s n).isExc = false ∧ switchLabelV P val n = some (switchLabel P s n)) ∨
+    ((switchLabel P s n).isExc = true ∧ switchLabelV P val n = none) := by
+  have hlen := hsw.decUnique n
+  unfold switchLabel switchLabelV
+  cases hL : (P.g.edges.filter (fun e => e.v == n)).filter (·.isSwitch) with
+  | nil => left; exact ⟨rfl, rfl⟩
+  | cons e rest =>
+    cases rest with
+    | cons e2 rest2 => rw [hL] at hlen; simp at hlen
+    | nil =>
+      have hmem : e ∈ (P.g.edges.filter (fun e => e.v == n)).filter (·.isSwitch) := by rw [hL]; simp
+      simp only [List.mem_filter, beq_iff_eq] at hmem
+      have hres := hdr e hmem.1.1 hmem.1.2 hmem.2
+      simp only [List.foldl_cons, List.foldl_nil]
+      cases hr : s.res e.u with
+      | none => rw [hr] at hres; simp at hres
+      | some w =>
+        have hget : s.get e.u = w := by simp [St.get, hd.resHid, hr]
+        rw [hget]
+        cases hx : w.isExc with
+        | false => left; exact ⟨rfl, hd.agree e.u w hr hx⟩
+        | true =>
+          right
+          refine ⟨rfl, ?_⟩
+          cases w <;> simp [Val.isExc] at hx
+          next x => exact (hd.excOK e.u x hr).1
 
-theorem fold_label {P : Program} {s : St} (es : List Edge) (h : ∀ e ∈ es, val e.u = some (s.get e.u)) :
-    ∀ init, es.foldl (fun _ e => val e.u) (some init) = some (es.foldl (fun _ e => s.get e.u) init) := by
-  induction es with
-  | nil => intro init; rfl
-  | cons e es ih =>
-    intro init
-    simp only [List.foldl_cons]
-    rw [h e (by simp)]
-    exact ih (fun e' he' => h e' (by simp [he'])) _
+/-- with the decision node's result available, the engine's lookup of the case agrees with the dataflow reading: no
+case there — no case here; a case there — the same label and case here -/
+theorem switchSel_sem {P : Program} (hsw : OneP P) {s : St} (hd : SData P val s) (n : Node) (hdr : DeciderReady P s n) :
+    (switchSelect P s n = none → swSel P val n = none) ∧
+    (∀ l cn, switchSelect P s n = some (l, cn) → SwChoice P val n l cn) := by
+  unfold switchSelect swSel SwChoice
+  rcases switchLabel_cases hsw hd n hdr with ⟨hne, hv⟩ | ⟨hex, hv⟩
+  · rw [hv]
+    cases hw : switchLabel P s n with
+    | str l0 =>
+      simp only []
+      constructor
+      · intro h; rw [h]; rfl
+      · intro l cn h
+        have hm := List.mem_of_getLast? h
+        simp only [List.mem_filter, beq_iff_eq] at hm
+        have : l = l0 := hm.2
+        subst this
+        exact ⟨rfl, h⟩
+    | none => exact ⟨fun _ => rfl, fun l cn h => by cases h⟩
+    | int i => exact ⟨fun _ => rfl, fun l cn h => by cases h⟩
+    | exc x => exact ⟨fun _ => rfl, fun l cn h => by cases h⟩
+    | recur r => exact ⟨fun _ => rfl, fun l cn h => by cases h⟩
+  · rw [hv]
+    cases hw : switchLabel P s n with
+    | exc x => exact ⟨fun _ => rfl, fun l cn h => by cases h⟩
+    | str l0 => rw [hw] at hex; cases hex
+    | none => rw [hw] at hex; cases hex
+    | int i => rw [hw] at hex; cases hex
+    | recur r => rw [hw] at hex; cases hex
 
-/-- the label the engine reads is the semantic one -/
-theorem switchLabel_sem {P : Program} {s : St} (hd : SData P val s) (n : Node) (hdr : DeciderReady P s n) :
-    switchLabelV P val n = some (switchLabel P s n) := by
-  unfold switchLabelV switchLabel
-  apply fold_label (P := P)
-  intro e he
-  simp only [List.mem_filter, beq_iff_eq] at he
-  have := hdr e he.1.1 he.1.2 he.2
-  cases hr : s.res e.u with
-  | none => rw [hr] at this; simp at this
+/-- reachability facts do not depend on the state of the view -/
+theorem vreach_any {P : Program} {s s' : St} {a b : Node} (h : Graph.VReach P.g (filteredView P s) a b) :
+    Graph.VReach P.g (filteredView P s') a b :=
+  Graph.VReach.of_okEdge (w := filteredView P s) (w' := filteredView P s') rfl h
+
+/-- a node without a value passes that on along every edge a reduced DAG can contain -/
+theorem none_along_edge {P : Program} (hsw : OneP P) (hsol : SolutionOne P val) (hh : HasHeads P) {s : St} {a b : Node}
+    (he : Graph.VEdge P.g (filteredView P s) a b) (ha : val a = none) : val b = none := by
+  obtain ⟨e, hm, hu, hv, hok⟩ := he
+  subst hu hv
+  simp only [filteredView, Bool.and_eq_true, Option.isNone_iff_eq_none, Bool.not_eq_true'] at hok
+  cases hS : P.g.isSwitch e.v with
+  | false =>
+    cases hH : P.g.isOneofHead e.v with
+    | false =>
+      refine hsol.none_of_pred ⟨hS, hH⟩ ?_
+      rw [List.all_eq_false]
+      refine ⟨e.u, ?_, by rw [ha]; simp⟩
+      simp only [Graph.preds, List.mem_map, List.mem_filter]
+      exact ⟨e, ⟨hm, by simp⟩, rfl⟩
+    | true =>
+      rcases hsw.headEdges e hm hH with h1 | h1
+      · have h2 := hok.2
+        simp only [cands] at h1
+        rw [h2] at h1; cases h1
+      · have := hsol.input hh
+        rw [← h1, ha] at this; cases this
+  | true =>
+    rcases hsw.swEdges e hm hS with h1 | h1
+    · -- the decision edge: no label, no case
+      have hlen := hsw.decUnique e.v
+      have hmem : e ∈ (P.g.edges.filter (fun e' => e'.v == e.v)).filter (·.isSwitch) := by
+        simp [hm, h1]
+      rw [hsol.sw e.v hS]
+      unfold swSel switchLabelV
+      cases hL : (P.g.edges.filter (fun e' => e'.v == e.v)).filter (·.isSwitch) with
+      | nil => rw [hL] at hmem; cases hmem
+      | cons e1 rest =>
+        cases rest with
+        | cons e2 rest2 => rw [hL] at hlen; simp at hlen
+        | nil =>
+          rw [hL] at hmem
+          simp only [List.mem_singleton] at hmem
+          subst hmem
+          simp only [List.foldl_cons, List.foldl_nil, ha]
+          rfl
+    · rw [hok.1] at h1; cases h1
+
+theorem none_along_reach {P : Program} (hsw : OneP P) (hsol : SolutionOne P val) (hh : HasHeads P) {s : St} {a b : Node}
+    (h : Graph.VReach P.g (filteredView P s) a b) : val a = none → val b = none := by
+  induction h with
+  | refl => exact id
+  | tail _ he ih => exact fun ha => none_along_edge hsw hsol hh he (ih ha)
+
+/-- **an error anywhere in the reduced DAG of a candidate means the candidate has no value** -/
+theorem hasError_none {P : Program} (hsw : OneP P) (hsol : SolutionOne P val) {s : St} (hd : SData P val s)
+    {sub : DagRef} {cand : Node} (hsub : SubOK P sub cand) (h : hasError s sub = true) : val cand = none := by
+  unfold hasError at h
+  rw [List.any_eq_true] at h
+  obtain ⟨x, hx, herr⟩ := h
+  simp only [St.isErr, St.get, hd.resHid, Bool.false_eq_true, if_false] at herr
+  cases hr : s.res x with
+  | none => rw [hr] at herr; simp [Val.isExc] at herr
+  | some w =>
+    rw [hr] at herr
+    simp only [Option.getD_some] at herr
+    cases w <;> simp [Val.isExc] at herr
+    next e =>
+    obtain ⟨hv, _, hh⟩ := hd.excOK x e hr
+    exact none_along_reach hsw hsol hh (hsub.reach x hx) hv
+
+theorem findSome_none {α β : Type} (f : α → Option β) (l : List α) (h : ∀ x ∈ l, f x = none) : l.findSome? f = none := by
+  induction l with
+  | nil => rfl
+  | cons a l ih => simp [List.findSome?, h a (by simp), ih (fun x hx => h x (by simp [hx]))]
+
+theorem findSome_first {α β : Type} (f : α → Option β) (pre : List α) (a : α) (post : List α) (v : β)
+    (h : ∀ x ∈ pre, f x = none) (ha : f a = some v) : (pre ++ a :: post).findSome? f = some v := by
+  induction pre with
+  | nil => simp [List.findSome?, ha]
+  | cons b pre ih => simp [List.findSome?, h b (by simp), ih (fun x hx => h x (by simp [hx]))]
+
+theorem SInvX.openCand {P : Program} {ex : Option Nat} {s : St} (h : SInvX P val ex s) (b : Bool) (c : Node) :
+    SInvX P val ex (openCand s b c) ∧ Grows s (openCand s b c) := by
+  unfold Eng.openCand
+  split
+  · have g : Grows s { s with opened := upd s.opened c true } := Grows.of_eq rfl rfl rfl
+    exact ⟨h.transport (h.data.of_same ⟨rfl, rfl, rfl, rfl, rfl, rfl, rfl, rfl, rfl⟩) g
+      (fun i tk hi => Or.inl (old_task hi)), g⟩
+  · exact ⟨h, Grows.refl s⟩
+
+/-- the candidate `cand` of head `h` succeeded: its value becomes the head's -/
+theorem safe_oneofWin {P : Program} {c : Ctx} {s : St} {below : List Frame} (x : StepCtx P val c s below)
+    (obs : List Obs) (ho : ObsAll P val obs) (h cand : Node) (hh : P.g.isOneofHead h = true)
+    (pre rest : List Node) (hc : cands P h = pre ++ cand :: rest) (hpre : ∀ y ∈ pre, val y = none)
+    {sub : DagRef} (hsub : SubOK P sub cand) (hne : hasError s sub = false)
+    (hex : (s.exists cand && !(s.get cand).isRecur) = true) : Good P val (oneofWin c s obs h cand below) := by
+  simp only [Bool.and_eq_true, St.exists, x.inv.data.resHid, Bool.not_false, Bool.and_true] at hex
+  cases hr : s.res cand with
+  | none => rw [hr] at hex; simp at hex
   | some v =>
-    rw [(hd.agree e.u v hr).1]
-    simp [St.get, hd.resHid, hr]
+    have hgv : s.getHid cand = v := by simp [St.getHid, hr]
+    have hnx : v.isExc = false := by
+      -- the candidate is a node of its own reduced DAG, which has no error
+      unfold hasError at hne
+      rw [List.any_eq_false] at hne
+      have := hne cand hsub.mem
+      simpa [St.isErr, St.get, x.inv.data.resHid, hr] using this
+    have hvc : val cand = some v := x.inv.data.agree cand v hr hnx
+    have hvh : val h = some v := by
+      rw [x.sol.head h hh, hc]
+      exact findSome_first val pre cand rest v hpre hvc
+    unfold oneofWin
+    rw [hgv, x.cP]
+    have g := grows_setRes_val x.inv.data h v hvh
+    have x1 := x.to (x.inv.setRes h v hvh ⟨x.inv.data.vals cand v hr, hnx⟩ (x.sw.headPlain h hh)) g
+    refine good_retTo c (((x1.inv.notify _).notifyAll _).notify _) ho _ _ ?_
+    intro f hf
+    exact (x1.bel f hf).mono (((Grows.of_eq (s' := notify (s.setRes h v) (.node h)) rfl rfl rfl).trans
+      (grows_notifyAll _ _)).trans (Grows.of_eq rfl rfl rfl))
 
-/-- with the decision value known, "the engine finds no case" is "the semantics selects none" -/
-theorem swSel_none {P : Program} {s : St} (hd : SData P val s) (n : Node) (hdr : DeciderReady P s n)
-    (h : switchSelect P s n = none) : (switchLabelV P val n).isSome = true ∧ swSel P val n = none := by
-  have hl := switchLabel_sem hd n hdr
-  refine ⟨by rw [hl]; rfl, ?_⟩
-  unfold swSel
-  rw [hl]
-  unfold switchSelect at h
-  split at h
-  · next l hl' => simp only [hl', h, Option.map_none]
-  · next hne =>
+/-- `_run_oneof` once candidate `cand` is being / has been run: win, move on to the rest, or wait -/
+theorem safe_oneofAfter {P : Program} {c : Ctx} {s : St} {below : List Frame} (x : StepCtx P val c s below)
+    (obs : List Obs) (ho : ObsAll P val obs) (d : DagRef) (hd : DagFl P d) (h cand : Node)
+    (hh : P.g.isOneofHead h = true) (hdm : Lz s (Demanded P val h))
+    (pre rest : List Node) (hc : cands P h = pre ++ cand :: rest) (hpre : ∀ y ∈ pre, val y = none)
+    {sub : DagRef} (hsub : SubOK P sub cand)
+    (hTry : (∀ y ∈ pre ++ [cand], val y = none) → Good P val (oneofTry c d h below s obs rest)) :
+    Good P val (if oneofDone s cand sub then
+        (if hasError s sub then oneofTry c d h below s obs rest else oneofWin c s obs h cand below)
+      else block c s obs (.oneofWait d h cand rest sub :: below) (.cond (.node cand))) := by
+  split
+  · next hdone =>
     split
-    · next l hl' => exact absurd (Option.some.inj hl') (by intro e; exact hne l e)
-    · rfl
+    · next herr =>
+      have hvc := hasError_none x.sw x.sol x.inv.data hsub herr
+      refine hTry ?_
+      intro y hy
+      rcases List.mem_append.mp hy with h1 | h1
+      · exact hpre y h1
+      · simp only [List.mem_singleton] at h1; rw [h1]; exact hvc
+    · next herr =>
+      have herr' : hasError s sub = false := by simpa using herr
+      unfold oneofDone at hdone
+      rw [herr', Bool.false_or] at hdone
+      exact safe_oneofWin x obs ho h cand hh pre rest hc hpre hsub herr' hdone
+  · exact good_block c x.inv ho _ _ (frames_cons x.bel _ ⟨hd, hh, hdm, ⟨pre, hc, hpre⟩, hsub⟩)
+
+theorem safe_oneofTry {P : Program} {c : Ctx} {below : List Frame} (d : DagRef) (hd : DagFl P d) (h : Node)
+    (hh : P.g.isOneofHead h = true) : ∀ (rest : List Node) (s : St) (obs : List Obs),
+    ObsAll P val obs → StepCtx P val c s below → Lz s (Demanded P val h) →
+    (∃ pre, cands P h = pre ++ rest ∧ ∀ y ∈ pre, val y = none) → Good P val (oneofTry c d h below s obs rest) := by
+  intro rest
+  induction rest with
+  | nil =>
+    intro s obs ho x hdm ⟨pre, hc, hpre⟩
+    have hvh : val h = none := by
+      rw [x.sol.head h hh, hc, List.append_nil]
+      exact findSome_none val pre hpre
+    have hcause : ErrCause P val ⟨"OneOfNoResult", h, 0, 0⟩ :=
+      Or.inr (Or.inr (Or.inr (Or.inr (Or.inr ⟨h, hh, rfl, hvh⟩))))
+    simp only [oneofTry]
+    split
+    · -- nested: the head's failure is stored as its result
+      rw [x.cP]
+      have g := grows_setRes_exc x.inv.data h ⟨"OneOfNoResult", h, 0, 0⟩ hvh
+      have x1 := x.to (x.inv.setResExc h _ hvh hcause ⟨h, hh⟩ (x.sw.headPlain h hh)) g
+      refine good_retTo c ((x1.inv.notify _).notifyAll _) ho _ _ ?_
+      intro f hf
+      exact (x1.bel f hf).mono ((Grows.of_eq (s' := notify (s.setRes h (.exc ⟨"OneOfNoResult", h, 0, 0⟩)) (.node h))
+        rfl rfl rfl).trans (grows_notifyAll _ _))
+    · exact good_raiseOut c x.cP (x.inv.notify .run) ho below _ (by intro e he; cases he; exact hcause)
+  | cons cand rest ih =>
+    intro s obs ho x hdm ⟨pre, hc, hpre⟩
+    simp only [oneofTry]
+    obtain ⟨hi1, g1⟩ := x.inv.openCand true cand
+    have x1 : StepCtx P val c (openCand s true cand) below := x.to hi1 g1
+    rw [x.cP]
+    split
+    · exact good_raiseOut c x.cP x1.inv ho below _
+        (by intro e he; cases he; exact Or.inr (Or.inr (Or.inr (Or.inl rfl))))
+    · next sub hsub =>
+      obtain ⟨hf1, hf2, _, hreach⟩ := reducedRef_reach x.sw hsub
+      have hopen : (openCand s true cand).opened cand = true := by simp [openCand, upd]
+      have hcm : cand ∈ cands P h := by rw [hc]; simp
+      obtain ⟨hcn, hci, hcr⟩ := x.sw.candReach h cand _ hh hcm hopen
+      have hfl : DagFl P sub := ⟨hf1, fun _ => ⟨h, hh⟩⟩
+      have hsubok : SubOK P sub cand := by
+        refine ⟨hfl, hf2, fun y hy => vreach_any (hreach y hy), ?_⟩
+        -- the candidate itself is a node of its reduced DAG
+        unfold reducedRef at hsub
+        simp only [] at hsub
+        split at hsub
+        · next y hy => exact absurd hy (vnodes_not_single x.sw _ y)
+        · split at hsub
+          · cases hsub
+          · next ns hns =>
+            cases hsub
+            refine Graph.between_dst_mem hns x.sw.inIn.1 ?_ hcn ?_ (Ne.symm hci) hcr
+            · simp [filteredView, x.sw.inIn.2]
+            · simp [filteredView, hopen]
+      have hdc : Lz (openCand s true cand) (Demanded P val cand) :=
+        (hdm.mono g1).imp (fun hD => .cand hD hh hc hpre)
+      have hdd : Lz (openCand s true cand) (∀ n ∈ sub.nodes, Demanded P val n) :=
+        hdc.imp (fun hD => Demanded.of_reducedRef x.sw hsub hD)
+      have g2 : Grows (openCand s true cand) (spawn (openCand s true cand) [.dagInit sub] .dag).1 := Grows.of_eq rfl rfl rfl
+      have x2 := x1.to (x1.inv.spawn [.dagInit sub] .dag (by
+        intro f hf; simp at hf; subst hf; exact ⟨hfl, hdd⟩)) g2
+      have ho2 : ObsAll P val (obs ++ [.spawn (openCand s true cand).tasks.length .dag]) := ho.snoc (o := .spawn _ _) trivial
+      refine safe_oneofAfter x2 _ ho2 d hd h cand hh ((hdm.mono g1).mono g2) pre rest hc hpre hsubok ?_
+      intro hall
+      exact ih _ _ ho2 x2 ((hdm.mono g1).mono g2) ⟨pre ++ [cand], by rw [hc]; simp, hall⟩
+
+theorem safe_oneofWake {P : Program} {c : Ctx} {s : St} {below : List Frame} (x : StepCtx P val c s below)
+    (obs : List Obs) (ho : ObsAll P val obs) (d : DagRef) (hd : DagFl P d) (h cand : Node)
+    (hh : P.g.isOneofHead h = true) (hdm : Lz s (Demanded P val h))
+    (pre rest : List Node) (hc : cands P h = pre ++ cand :: rest) (hpre : ∀ y ∈ pre, val y = none)
+    {sub : DagRef} (hsub : SubOK P sub cand) : Good P val (oneofWake c s obs d h cand rest sub below) := by
+  unfold oneofWake
+  refine safe_oneofAfter x obs ho d hd h cand hh hdm pre rest hc hpre hsub ?_
+  intro hall
+  exact safe_oneofTry d hd h hh rest s obs ho x hdm ⟨pre ++ [cand], by rw [hc]; simp, hall⟩
 
 theorem safe_switchStart {P : Program} {c : Ctx} {s : St} {below : List Frame} (x : StepCtx P val c s below)
-    (obs : List Obs) (ho : ObsAll P val obs) (d : DagRef) (n : Node) (hd : d.isOneof = false ∧ d.isRec = false)
+    (obs : List Obs) (ho : ObsAll P val obs) (d : DagRef) (n : Node) (hd : DagFl P d)
     (hsn : P.g.isSwitch n = true) (hdm : Lz s (Demanded P val n)) (hdr : DeciderReady P s n) :
     Good P val (switchStart c s obs d n below) := by
+  obtain ⟨hnone, hsome⟩ := switchSel_sem x.sw x.inv.data n hdr
   unfold switchStart
   rw [x.cP]
   split
-  · next hnone =>
+  · next hn =>
     refine good_raiseOut c x.cP (x.inv.notify .run) ho below _ ?_
     intro e he
     cases he
-    obtain ⟨h1, h2⟩ := swSel_none x.inv.data n hdr hnone
-    exact Or.inr (Or.inr (Or.inl ⟨n, hsn, rfl, h1, h2⟩))
+    exact Or.inr (Or.inr (Or.inl ⟨n, hsn, rfl, hnone hn⟩))
   · next l cn hsel =>
-    -- the recorded decision is the semantic one
-    have hc : SwChoice P val n l cn := by
-      unfold switchSelect at hsel
-      split at hsel
-      · next l' hl' =>
-        have hmem := List.mem_of_getLast? hsel
-        simp only [List.mem_filter, beq_iff_eq] at hmem
-        have hll : l = l' := hmem.2
-        subst hll
-        exact ⟨by rw [switchLabel_sem x.inv.data n hdr, hl'], hsel⟩
-      · cases hsel
+    have hc : SwChoice P val n l cn := hsome l cn hsel
     have hold : ∀ lc, s.sw n = some lc → lc = (l, cn) := by
       intro lc hlc
       have h2 := x.inv.data.swOK n lc.1 lc.2 hlc
@@ -1229,21 +1772,24 @@ theorem safe_switchStart {P : Program} {c : Ctx} {s : St} {below : List Frame} (
       subst h1
       exact h4
     have g : Grows s (s.setSw n (l, cn)) := by
-      refine ⟨fun _ _ h => h, ?_, id⟩
+      refine ⟨fun _ v h => ⟨v, h, fun _ => rfl⟩, ?_, id⟩
       intro T lc hT
       simp only [St.setSw, upd]
       split
       · next he => subst he; rw [hold lc hT]
       · exact hT
     have x1 : StepCtx P val c (s.setSw n (l, cn)) below := x.to (x.inv.setSw n l cn hc hold) g
-    simp only [openCand, hd.1, Bool.false_eq_true, if_false]
+    obtain ⟨hi2, g2⟩ := x1.inv.openCand d.isOneof cn
+    have x2 : StepCtx P val c (openCand (s.setSw n (l, cn)) d.isOneof cn) below := x1.to hi2 g2
+    dsimp only
     split
-    · exact good_raiseOut c x.cP x1.inv ho below _ (by intro e he; cases he; exact Or.inr (Or.inr (Or.inr (Or.inl rfl))))
+    · exact good_raiseOut c x.cP x2.inv ho below _ (by intro e he; cases he; exact Or.inr (Or.inr (Or.inr (Or.inl rfl))))
     · next sub hsub =>
-      have hsf := reducedRef_flags P _ _ _ sub hsub
-      have x2 : StepCtx P val c (s.setSw n (l, cn)) (.switchRet d n :: below) :=
-        ⟨x1.cP, x1.sw, x1.sol, x1.inv, frames_cons x1.bel _ hd⟩
-      refine safe_dagInit x2 obs ho sub hsf ((hdm.mono g).imp ?_)
+      obtain ⟨hf1, hf2, _, _⟩ := reducedRef_reach x.sw hsub
+      have hfl : DagFl P sub := ⟨hf1, fun h1 => hd.one (by rw [← hf2]; exact h1)⟩
+      have x3 : StepCtx P val c (openCand (s.setSw n (l, cn)) d.isOneof cn) (.switchRet d n :: below) :=
+        ⟨x2.cP, x2.sw, x2.sol, x2.inv, frames_cons x2.bel _ hd⟩
+      refine safe_dagInit x3 obs ho sub hfl (((hdm.mono g).mono g2).imp ?_)
       intro hS
       exact Demanded.of_reducedRef x.sw hsub (.case hS hsn hc.sel)
 
@@ -1302,14 +1848,17 @@ theorem safe_mgrFinish {P : Program} {c : Ctx} {s : St} (x : StepCtx P val c s [
           omega
       simp only [hnil, List.isEmpty_nil, Bool.not_true, Bool.false_or, x.cP] at hfin
       simp only [St.exists, Bool.and_eq_true] at hfin
-      show val P.g.output = some (s.getHid c.P.g.output)
       rw [x.cP]
       cases hr : s.res P.g.output with
       | none => rw [hr] at hfin; simp at hfin
       | some w =>
-        have : s.getHid P.g.output = w := by simp [St.getHid, hr]
-        rw [this]
-        exact (x.inv.data.agree _ w hr).1
+        have hg : s.getHid P.g.output = w := by simp [St.getHid, hr]
+        rw [hg]
+        constructor
+        · intro hne; exact x.inv.data.agree _ w hr hne
+        · intro hex
+          cases w <;> simp [Val.isExc] at hex
+          next e => exact (x.inv.data.excOK _ e hr).2.2
   have x1 : StepCtx P val c (cancelTasks s (liveTasks s c.t)) [] :=
     ⟨x.cP, x.sw, x.sol, x.inv.cancelTasks _, by intro f hf; simp at hf⟩
   exact safe_mgrComplete x1 obs hob _ ho
@@ -1328,14 +1877,15 @@ theorem safe_mgrBegin {P : Program} {c : Ctx} {s : St} (x : StepCtx P val c s []
   · next hp =>
     refine safe_mgrComplete x obs hob _ ?_
     show ErrCause P val _
-    exact Or.inr (Or.inr (Or.inr (Or.inr ⟨by rw [← x.cP]; simpa using hp, rfl⟩)))
+    exact Or.inr (Or.inr (Or.inr (Or.inr (Or.inl ⟨by rw [← x.cP]; simpa using hp, rfl⟩))))
   · split
     · refine safe_mgrComplete x obs hob _ ?_
       show ErrCause P val _
       exact Or.inr (Or.inr (Or.inr (Or.inl rfl)))
     · next d hd =>
       rw [x.cP] at hd
-      have hf := reducedRef_flags P _ _ _ d hd
+      obtain ⟨hf1, hf2, _, _⟩ := reducedRef_reach x.sw hd
+      have hf : DagFl P d := ⟨hf1, fun h1 => by rw [hf2] at h1; cases h1⟩
       have x1 : StepCtx P val c (spawn s [.dagInit d] .run).1 [] :=
         ⟨x.cP, x.sw, x.sol, x.inv.spawn _ _ (by
           intro f hf'; simp at hf'; subst hf'
@@ -1374,7 +1924,7 @@ theorem safe_deliverCancel {P : Program} {c : Ctx} {s : St} (hcP : c.P = P) (h :
 
 /-! ### one section of any task, one step, every reachable state -/
 
-theorem safe_stepTask {P : Program} (hsw : SwP P) (hsol : SolutionSw P val) {s : St} (h : SInv P val s)
+theorem safe_stepTask {P : Program} (hsw : OneP P) (hsol : SolutionOne P val) {s : St} (h : SInv P val s)
     (hci : CoreInv s.core) (c : Ctx) (hcP : c.P = P) (out : Out) (hs : stepTask c s = some out) :
     Good P val out := by
   have hn : ObsAll P val [] := ObsAll.nil
@@ -1421,71 +1971,78 @@ theorem safe_stepTask {P : Program} (hsw : SwP P) (hsol : SolutionSw P val) {s :
           exact safe_dagWaitDest (mkx below (tl _ _ hfs)) _ hn d (hd0 _ _ hfs)
         · next _ _ d n force below hfs =>
           obtain rfl := Option.some.inj hs
-          obtain ⟨a1, a2, a3, a4, a4', a5⟩ := hd0 _ _ hfs
+          obtain ⟨a1, a3, a4, a4', a5⟩ := hd0 _ _ hfs
           subst a3
-          exact safe_nodeStart (mkx below (tl _ _ hfs)) _ hn d n ⟨a1, a2⟩ a4 a4' a5 hci
+          exact safe_nodeStart (mkx below (tl _ _ hfs)) _ hn d n a1 a4 a4' a5 hci
         · next _ _ d n force below hfs =>
           obtain rfl := Option.some.inj hs
           exact safe_nodePost_wait (mkx below (tl _ _ hfs)) _ hn d n
         · next _ _ d n force k kw inv below o hfs =>
           obtain rfl := Option.some.inj hs
-          obtain ⟨a1, a2, a3, a4, a4', a5⟩ := hd0 _ _ hfs
+          obtain ⟨a1, a3, a4, a4', a5⟩ := hd0 _ _ hfs
           subst a3
           rw [hcP]
-          exact safe_nodeAfterBody (mkx below (tl _ _ hfs)) _ hn d n k kw inv ⟨a1, a2⟩ a4 a4' a5
+          exact safe_nodeAfterBody (mkx below (tl _ _ hfs)) _ hn d n k kw inv a1 a4 a4' a5
         · next _ _ d n force k kw inv below hfs =>
           obtain rfl := Option.some.inj hs
-          obtain ⟨a1, a2, a3, a4, a4', a5⟩ := hd0 _ _ hfs
+          obtain ⟨a1, a3, a4, a4', a5⟩ := hd0 _ _ hfs
           subst a3
-          exact safe_nodeAttempt (mkx below (tl _ _ hfs)) _ hn d n (k + 1) kw inv ⟨a1, a2⟩ a4 a4' a5
+          exact safe_nodeAttempt (mkx below (tl _ _ hfs)) _ hn d n (k + 1) kw inv a1 a4 a4' a5
         · next _ _ d n force j inv below hfs =>
           obtain rfl := Option.some.inj hs
-          obtain ⟨a1, a2, a3, a4, a4', a5, a6⟩ := hd0 _ _ hfs
+          obtain ⟨a1, a3, a4, a4', a5, a6⟩ := hd0 _ _ hfs
           subst a3
           refine safe_cbThen (mkx below (tl _ _ hfs)) _ hn _ _ _
-            (safe_nodeBegin (mkx below (tl _ _ hfs)) _ hn d n inv ⟨a1, a2⟩ a4 a4' a5 a6) ?_
+            (safe_nodeBegin (mkx below (tl _ _ hfs)) _ hn d n inv a1 a4 a4' a5 a6) ?_
           intro j'
-          exact frames_cons (tl _ _ hfs) _ ⟨a1, a2, rfl, a4, a4', a5, a6⟩
+          exact frames_cons (tl _ _ hfs) _ ⟨a1, rfl, a4, a4', a5, a6⟩
         · next _ _ d n force j k kw inv below hfs =>
           obtain rfl := Option.some.inj hs
-          obtain ⟨a1, a2, a3, a4, a4', a5⟩ := hd0 _ _ hfs
+          obtain ⟨a1, a3, a4, a4', a5⟩ := hd0 _ _ hfs
           subst a3
           refine safe_cbThen (mkx below (tl _ _ hfs)) _ hn _ _ _
-            (safe_nodeSleep (mkx below (tl _ _ hfs)) _ hn d n k kw inv ⟨a1, a2⟩ a4 a4' a5) ?_
+            (safe_nodeSleep (mkx below (tl _ _ hfs)) _ hn d n k kw inv a1 a4 a4' a5) ?_
           intro j'
-          exact frames_cons (tl _ _ hfs) _ ⟨a1, a2, rfl, a4, a4', a5⟩
+          exact frames_cons (tl _ _ hfs) _ ⟨a1, rfl, a4, a4', a5⟩
         · next _ _ d n force j v below hfs =>
           obtain rfl := Option.some.inj hs
-          obtain ⟨a1, a2, a3, a4, a4', a5, a6⟩ := hd0 _ _ hfs
+          obtain ⟨a1, a3, a4, a4', a5, a6⟩ := hd0 _ _ hfs
           refine safe_cbThen (mkx below (tl _ _ hfs)) _ hn _ _ _
-            (safe_nodePost_exec (mkx below (tl _ _ hfs)) _ hn d n v ⟨a1, a2⟩ a4 a4' a5 a6) ?_
+            (safe_nodePost_exec (mkx below (tl _ _ hfs)) _ hn d n v a1 a4 a4' a5 a6) ?_
           intro j'
-          exact frames_cons (tl _ _ hfs) _ ⟨a1, a2, rfl, a4, a4', a5, a6⟩
+          exact frames_cons (tl _ _ hfs) _ ⟨a1, rfl, a4, a4', a5, a6⟩
         · next _ _ d n force j e below hfs =>
           obtain rfl := Option.some.inj hs
-          obtain ⟨a1, a2, a3, a4, a4', a5⟩ := hd0 _ _ hfs
+          obtain ⟨a1, a3, a4, a4', a5, a6⟩ := hd0 _ _ hfs
           refine safe_cbThen (mkx below (tl _ _ hfs)) _ hn _ _ _
-            (safe_nodeFailCont (mkx below (tl _ _ hfs)) _ hn d n e ⟨a1, a2⟩ a5) ?_
+            (safe_nodeFailCont (mkx below (tl _ _ hfs)) _ hn d n e a1 a4 a5 a6) ?_
           intro j'
-          exact frames_cons (tl _ _ hfs) _ ⟨a1, a2, rfl, a4, a4', a5⟩
+          exact frames_cons (tl _ _ hfs) _ ⟨a1, rfl, a4, a4', a5, a6⟩
         · next _ _ d n force j below hfs =>
           obtain rfl := Option.some.inj hs
-          obtain ⟨a1, a2, a3, a4, a4', a5⟩ := hd0 _ _ hfs
+          obtain ⟨a1, a3, a4, a4', a5⟩ := hd0 _ _ hfs
           refine safe_cbThen (mkx below (tl _ _ hfs)) _ hn _ _ _
             (safe_nodeFinish (mkx below (tl _ _ hfs)) _ hn d n) ?_
           intro j'
-          exact frames_cons (tl _ _ hfs) _ ⟨a1, a2, rfl, a4, a4', trivial⟩
+          exact frames_cons (tl _ _ hfs) _ ⟨a1, rfl, a4, a4', trivial⟩
         · next _ _ d n below hfs =>
           obtain rfl := Option.some.inj hs
-          obtain ⟨a1, a2, a3, a4, a5⟩ := hd0 _ _ hfs
-          exact safe_switchStart (mkx below (tl _ _ hfs)) _ hn d n ⟨a1, a2⟩ a3 a4 a5
+          obtain ⟨a1, a3, a4, a5⟩ := hd0 _ _ hfs
+          exact safe_switchStart (mkx below (tl _ _ hfs)) _ hn d n a1 a3 a4 a5
         · next _ _ d n below v hfs =>
           obtain rfl := Option.some.inj hs
           rw [hcP]
           exact good_retTo c (hx.notifyAll _) hn _ _
             (fun f hf => (tl _ _ hfs f hf).mono (grows_notifyAll _ _))
-        · next _ _ d hd below hfs => exact absurd (hd0 _ _ hfs) (by simp [FrameOK])
-        · next _ _ d hd cand rest sub below hfs => exact absurd (hd0 _ _ hfs) (by simp [FrameOK])
+        · next _ _ d hd below hfs =>
+          obtain rfl := Option.some.inj hs
+          obtain ⟨a1, a2, a3⟩ := hd0 _ _ hfs
+          rw [hcP]
+          exact safe_oneofTry d a1 hd a2 _ s [] hn (mkx below (tl _ _ hfs)) a3 ⟨[], rfl, by intro y hy; cases hy⟩
+        · next _ _ d hd cand rest sub below hfs =>
+          obtain rfl := Option.some.inj hs
+          obtain ⟨a1, a2, a3, ⟨pre, a4, a5⟩, a6⟩ := hd0 _ _ hfs
+          exact safe_oneofWake (mkx below (tl _ _ hfs)) _ hn d a1 hd cand a2 a3 pre rest a4 a5 a6
         · next _ _ d n r below hfs => exact absurd (hd0 _ _ hfs) (by simp [FrameOK])
         · next _ _ d n st g k below v hfs => exact absurd (hd0 _ _ hfs) (by simp [FrameOK])
         · next _ _ d n st below v hfs => exact absurd (hd0 _ _ hfs) (by simp [FrameOK])
@@ -1509,7 +2066,7 @@ theorem gateDone_exc (n inv att : Nat) (tk : Task) (e : Exc) (h : (gateDone n in
 
 /-- **every step of the engine model preserves the safety invariant and emits only justified observations**
 (switch-only programs) -/
-theorem safe_step {P : Program} (hsw : SwP P) (hsol : SolutionSw P val) {s : St} (h : SInv P val s)
+theorem safe_step {P : Program} (hsw : OneP P) (hsol : SolutionOne P val) {s : St} (h : SInv P val s)
     (hci : CoreInv s.core) (ch : Choice) (out : Out) (hs : step P s ch = some out) : Good P val out := by
   cases ch with
   | run t ord pick => exact safe_stepTask hsw hsol h hci _ rfl out hs
@@ -1546,9 +2103,11 @@ theorem safe_step {P : Program} (hsw : SwP P) (hsol : SolutionSw P val) {s : St}
     exact ⟨h.cancelTask 0, ObsAll.nil⟩
 
 theorem safe_init {P : Program} : SInv P val init := by
-  refine ⟨⟨fun _ => rfl, fun _ => rfl, fun _ => rfl, fun _ => rfl, ?_, ?_, ?_, ?_, ?_⟩, ?_, ?_⟩
+  refine ⟨⟨fun _ => rfl, fun _ => rfl, fun _ => rfl, fun _ => rfl, ?_, ?_, ?_, ?_, ?_, ?_, ?_⟩, ?_, ?_⟩
   · intro n v h; simp [init] at h
   · intro n v h; simp [init] at h
+  · intro n v h; simp [init] at h
+  · intro n e h; simp [init] at h
   · intro S l c h; simp [init] at h
   · intro o h; simp [init] at h
   · exact Or.inr (by intro n h; simp [init] at h)
@@ -1564,18 +2123,56 @@ theorem safe_init {P : Program} : SInv P val init := by
     | i + 1, hi => simp at hi
 
 /-- **the safety invariant holds in every reachable state** of a switch-only program, under every schedule -/
-theorem safe_reach {P : Program} (hsw : SwP P) (hsol : SolutionSw P val) {s : St} (h : Reach P s) : SInv P val s := by
+theorem safe_reach {P : Program} (hsw : OneP P) (hsol : SolutionOne P val) {s : St} (h : Reach P s) : SInv P val s := by
   induction h with
   | init => exact safe_init
   | @step s s' c obs hr hs ih => exact (safe_step hsw hsol ih (coreInv_reach hr) c (s', obs) hs).1
 
 /-- **everything a run of a switch-only program lets its collaborators observe is justified**, under every schedule -/
-theorem safe_exec {P : Program} (hsw : SwP P) (hsol : SolutionSw P val) {s : St} {log : List Obs} (h : Exec P s log) :
+theorem safe_exec {P : Program} (hsw : OneP P) (hsol : SolutionOne P val) {s : St} {log : List Obs} (h : Exec P s log) :
     SInv P val s ∧ ObsAll P val log := by
   induction h with
   | init => exact ⟨safe_init, ObsAll.nil⟩
   | @step s s' log obs c hr hs ih =>
     have := safe_step hsw hsol ih.1 (coreInv_reach hr.reach) c (s', obs) hs
     exact ⟨this.1, ih.2.append this.2⟩
+
+/-! ### the switch-only special case -/
+
+/-- in a program without one-ofs no exception object is ever stored -/
+theorem SData.noExc {P : Program} {s : St} (hd : SData P val s) (hno : ¬ HasHeads P) (n : Node) (v : Val)
+    (h : s.res n = some v) : v.isExc = false := by
+  cases hx : v.isExc with
+  | false => rfl
+  | true =>
+    cases v <;> simp [Val.isExc] at hx
+    next e => exact absurd (hd.excOK n e h).2.2 hno
+
+theorem safe_reach_sw {P : Program} (hsw : SwP P) (hsol : SolutionSw P val) {s : St} (h : Reach P s) : SInv P val s :=
+  safe_reach hsw.toOneP (hsol.toOne hsw) h
+
+theorem safe_exec_sw {P : Program} (hsw : SwP P) (hsol : SolutionSw P val) {s : St} {log : List Obs} (h : Exec P s log) :
+    SInv P val s ∧ ObsAll P val log :=
+  safe_exec hsw.toOneP (hsol.toOne hsw) h
+
+/-- in a switch-only program, a returned value is the output's -/
+theorem outcome_value_sw {P : Program} (hsw : SwP P) {v : Val} (h : OutcomeOKSw P val (.value v)) :
+    val P.g.output = some v := by
+  cases hx : v.isExc with
+  | false => exact h.1 hx
+  | true => exact absurd (h.2 hx) hsw.noHeads
+
+/-- in a switch-only program a failure has one of the five switch-pipeline causes -/
+theorem errCause_sw {P : Program} (hsw : SwP P) {e : Exc} (h : ErrCause P val e) :
+    (∃ n, P.g.isSwitch n = false ∧ NodeFails P val n e) ∨ CollabFails P e ∨
+    (∃ S, P.g.isSwitch S = true ∧ e = ⟨"SwitchNoCase", S, 0, 0⟩ ∧ swSel P val S = none) ∨
+    e = ⟨"Other:NodeNotFound", 0, 0, 0⟩ ∨ (P.poolsOk = false ∧ e = ⟨"Other:RuntimeError", 0, 0, 0⟩) := by
+  rcases h with ⟨n, h1, _, h3⟩ | h | h | h | h | ⟨x, hx, _⟩
+  · exact Or.inl ⟨n, h1, h3⟩
+  · exact Or.inr (Or.inl h)
+  · exact Or.inr (Or.inr (Or.inl h))
+  · exact Or.inr (Or.inr (Or.inr (Or.inl h)))
+  · exact Or.inr (Or.inr (Or.inr (Or.inr h)))
+  · rw [hsw.noHead x] at hx; cases hx
 
 end MLPE.Eng
